@@ -1,283 +1,58 @@
-(* Reserved code points never reach the output: the inline layer (macros.render, on top of the
-   placeholder protocol) and then every block-layer function, for sessions whose definitions and
-   replacement option are free of U+0000..U+0002 -- an invariant of every reachable session. *)
-From Rimu Require Import Base Unicode Regex RegexSem RegexParse Str Types Tables Guards State Inline Block MatchLemmas Placeholder.
+(* Reserved code points never reach the output, and which exceptions can escape -- part 2: every block-layer function,
+   document.render, the API and histories, as Hoare triples [tok Q m] over the block monad: from a session satisfying the
+   invariant [Sok], m returns a value satisfying Q and a session satisfying Sok, or raises one of [blk_exn]. *)
+From Rimu Require Import Base Unicode Regex RegexSem RegexAnalysis RegexParse Str Types Tables Guards State Inline Block MatchLemmas Placeholder
+  TaintInline NoRaise NoRaiseTop Lines.
 From Coq Require Import Lia.
 Local Open Scope monad_scope.
 
-(* ---- string operations keep character predicates ---- *)
-Lemma allc_tl P s : allc P s -> allc P (tl s).
-Proof. destruct s; [auto|]. intros H. apply allc_cons in H. apply H. Qed.
-
-Lemma allc_rev_append P a : forall b, allc P a -> allc P b -> allc P (rev_append a b).
-Proof.
-  induction a as [|x a IH]; intros b Ha Hb; simpl; [exact Hb|]. apply allc_cons in Ha as [Hx Ha].
-  apply IH; [exact Ha|]. apply allc_cons. auto.
-Qed.
-
-Lemma allc_frev P s : allc P s -> allc P (frev s).
-Proof. intros H. unfold frev. apply allc_rev_append; [exact H|apply allc_nil]. Qed.
-
-Lemma allc_lstrip P s : allc P s -> allc P (lstrip s).
-Proof. induction s as [|x t IH]; intros H; simpl; [exact H|]. destruct (is_space x); [apply IH; apply allc_cons in H; apply H|exact H]. Qed.
-
-Lemma allc_strip P s : allc P s -> allc P (strip s).
-Proof. intros H. unfold strip, rstrip. apply allc_frev, allc_lstrip, allc_frev, allc_lstrip, H. Qed.
-
-Lemma allc_takeN P s : forall n, allc P s -> allc P (takeN n s).
-Proof.
-  induction s as [|x t IH]; intros n H; simpl; [exact H|]. destruct (n =? 0); [apply allc_nil|].
-  apply allc_cons in H as [Hx Ht]. apply allc_cons. auto.
-Qed.
-
-Lemma allc_dropN P s : forall n, allc P s -> allc P (dropN n s).
-Proof.
-  induction s as [|x t IH]; intros n H; simpl; [exact H|]. destruct (n =? 0); [exact H|].
-  apply allc_cons in H as [Hx Ht]. auto.
-Qed.
-
-Lemma allc_drop_last P s : allc P s -> allc P (drop_last s).
-Proof. intros H. unfold drop_last. apply allc_frev, allc_tl, allc_frev, H. Qed.
-
-Lemma allc_split_char_aux P c s : forall cur, allc P s -> allc P cur -> Forall (allc P) (split_char_aux c s cur).
-Proof.
-  induction s as [|x t IH]; intros cur Hs Hc; simpl.
-  - constructor; [apply allc_frev; exact Hc|constructor].
-  - apply allc_cons in Hs as [Hx Ht]. destruct (x =? c).
-    + constructor; [apply allc_frev; exact Hc|]. apply IH; [exact Ht|apply allc_nil].
-    + apply IH; [exact Ht|]. apply allc_cons. auto.
-Qed.
-
-Lemma allc_split_char P c s : allc P s -> Forall (allc P) (split_char c s).
-Proof. intros H. apply allc_split_char_aux; [exact H|apply allc_nil]. Qed.
-
-Lemma allc_join P sep l : allc P sep -> Forall (allc P) l -> allc P (join sep l).
-Proof.
-  intros Hs. induction 1 as [|x l Hx Hl IH]; [apply allc_nil|]. cbn [join]. destruct l as [|y l]; [exact Hx|].
-  apply allc_app. split; [exact Hx|]. apply allc_app. split; [exact Hs|exact IH].
-Qed.
-
-Lemma allc_replace_first P old new : allc P new -> forall s, allc P s -> allc P (replace_first old new s).
-Proof.
-  intros Hn. induction s as [|x t IH]; intros Hs; simpl.
-  - destruct (drop_prefix old []) as [rest|] eqn:E; [|apply allc_nil].
-    destruct old; [apply allc_nil|]. simpl in E. discriminate.
-  - destruct (drop_prefix old (x :: t)) as [rest|] eqn:E.
-    + destruct old; [exact Hs|]. apply drop_prefix_app in E. rewrite E in Hs. apply allc_app in Hs as [_ Hr].
-      apply allc_app. auto.
-    + apply allc_cons in Hs as [Hx Ht]. apply allc_cons. auto.
-Qed.
-
-Lemma allc_replace_all' P old new s : allc P new -> allc P s -> allc P (replace_all old new s).
-Proof. intros. apply allc_replace_all; auto. Qed.
-
-Lemma allc_filter_lines P (f : str -> bool) l : Forall (allc P) l -> Forall (allc P) (filter f l).
-Proof. induction 1 as [|x l Hx Hl IH]; simpl; [constructor|]. destruct (f x); [constructor; auto|auto]. Qed.
-
-Lemma re_sub_allc P r f s : allc P s -> (forall m, (forall k, allc P (grp_s m k)) -> allc P (f m)) -> allc P (re_sub r f s).
-Proof.
-  intros Hs Hf. unfold re_sub. destruct (re_scan r s) as [l tl] eqn:E.
-  apply (re_scan_allc P) in E as [Hl Htl]; [|exact Hs]. apply allc_app. split; [|exact Htl].
-  apply allc_concat. rewrite Forall_forall in *. intros x Hx. apply in_map_iff in Hx as (bm & <- & Hb).
-  destruct (Hl bm Hb) as [H1 H2]. apply allc_app. split; [exact H1|]. apply Hf. intros k.
-  unfold grp_s. destruct (grp (snd bm) k) eqn:Eg; [eapply H2; eauto|apply allc_nil].
-Qed.
-
-(* lower-casing: the generated table maps nothing to a reserved code point *)
-Lemma lower_table_ok : forallb (fun e => forallb (fun x => 2 <? x) (snd e)) lower_table = true.
-Proof. vm_compute. reflexivity. Qed.
-
-Lemma rfree_lower s : rfree s -> rfree (lower s).
-Proof.
-  intros H. unfold lower. apply allc_flat_map. intros x Hx. apply H in Hx. unfold lower_char.
-  cbv beta in Hx.
-  destruct ((65 <=? x) && (x <=? 90)); [intros y [<-|[]]; cbv beta; lia|].
-  destruct (x <? 128); [intros y [<-|[]]; exact Hx|].
-  destruct (find _ lower_table) as [[k l]|] eqn:E; [|intros y [<-|[]]; exact Hx].
-  apply find_some in E as [E _]. pose proof lower_table_ok as T. rewrite forallb_forall in T. apply T in E. cbn in E.
-  apply rfreeb_spec. exact E.
-Qed.
-
-Lemma rfree_digits : forall fuel n acc, rfree acc -> rfree (digits_fuel fuel n acc).
-Proof.
-  induction fuel as [|f IH]; intros n acc H; cbn [digits_fuel]; [exact H|].
-  assert (H' : rfree ((48 + n mod 10) :: acc)).
-  { apply allc_cons; split; [|exact H]. cbv beta. generalize (n mod 10). intros k. lia. }
-  destruct (n <? 10); [exact H'|apply IH; exact H'].
-Qed.
-
-Lemma rfree_str_of_N n : rfree (str_of_N n).
-Proof. apply rfree_digits, allc_nil. Qed.
-
-Ltac rf_lit := apply rfreeb_spec; vm_compute; reflexivity.
-
-(* ---- the inline monad: sequences ---- *)
-Lemma imapM_good {A B} (P : A -> Prop) (Q : B -> Prop) (f : A -> I B) l :
-  (forall a, P a -> good Q (f a)) -> Forall P l -> good (Forall Q) (imapM f l).
-Proof.
-  intros Hf. induction 1 as [|a l Ha Hl IH]; cbn [imapM]; [constructor|].
-  eapply good_bind; [apply Hf; exact Ha|]. intros y Hy. eapply good_bind; [exact IH|]. intros ys Hys. constructor; auto.
-Qed.
-
-Lemma grp_s_allc P m : (forall k t, grp m k = Some t -> allc P t) -> forall k, allc P (grp_s m k).
-Proof. intros H k. unfold grp_s. destruct (grp m k) eqn:E; [eapply H; eauto|apply allc_nil]. Qed.
-
-Lemma isub_good2 (P Q : char -> Prop) r f s : (forall x, P x -> Q x) -> allc P s ->
-  (forall m, (forall k, allc P (grp_s m k)) -> good (allc Q) (f m)) -> good (allc Q) (isub r f s).
-Proof.
-  intros PQ Hs Hf. unfold isub. destruct (re_scan r s) as [l tl] eqn:E.
-  apply (re_scan_allc P) in E as [Hl Htl]; [|exact Hs].
-  assert (W : forall t, allc P t -> allc Q t) by (intros t Ht x Hx; apply PQ, Ht, Hx).
-  eapply good_bind with (P := Forall (allc Q)).
-  - eapply imapM_good with (P := fun bm => allc P (fst bm) /\ forall k t, grp (snd bm) k = Some t -> allc P t); [|exact Hl].
-    intros bm [H1 H2]. eapply good_bind; [apply Hf; apply grp_s_allc; exact H2|].
-    intros x Hx. apply allc_app. auto.
-  - intros parts Hp. apply allc_app. split; [apply allc_concat; exact Hp|apply W; exact Htl].
-Qed.
-
-Lemma isub_good P r f s : allc P s -> (forall m, (forall k, allc P (grp_s m k)) -> good (allc P) (f m)) ->
-  good (allc P) (isub r f s).
-Proof. apply isub_good2. auto. Qed.
-
-(* ---- macros.render ---- *)
-Record ienv_ok (s : ienv) : Prop := {
-  io_env : env_ok s;
-  io_macros : Forall (fun nv => rfree (snd nv)) (en_macros s) }.
-
-Definition p2 (x : char) : Prop := 2 <= x.   (* reserved-free apart from the line-deletion flag *)
-
-Lemma rfree_p2 s : rfree s -> allc p2 s.
-Proof. intros H x Hx. apply H in Hx. unfold p2. lia. Qed.
-
-Lemma p2_no2_rfree s : allc p2 s -> existsb (N.eqb 2) s = false -> rfree s.
-Proof.
-  intros H E x Hx. specialize (H x Hx). unfold p2 in H.
-  destruct (N.eq_dec x 2) as [->|Hn]; [|lia].
-  exfalso. assert (existsb (N.eqb 2) s = true) by (apply existsb_exists; exists 2; split; [exact Hx|reflexivity]). congruence.
-Qed.
-
-Lemma assoc_get_In name l v : assoc_get name l = Some v -> exists n, In (n, v) l.
-Proof.
-  induction l as [|[n v'] l IH]; simpl; [discriminate|]. destruct (str_eqb n name).
-  - intros H. inversion H; subst. exists n. left. reflexivity.
-  - intros H. destruct (IH H) as (n' & Hn). exists n'. right. exact Hn.
-Qed.
-
-Section Macros.
-Variable s : ienv.
-Variable sr : str -> I str.
-Hypothesis Hs : ienv_ok s.
-Hypothesis Hsr : sr_ok sr.
-
-Lemma getValue_rfree name v : getValue s name = Some v -> rfree v.
-Proof.
-  intros H. apply assoc_get_In in H as (n & Hn). destruct Hs as [_ Hm]. rewrite Forall_forall in Hm. apply (Hm _ Hn).
-Qed.
-
-Lemma param_repl_good params m : Forall rfree params -> (forall k, rfree (grp_s m k)) -> good rfree (param_repl sr params m).
-Proof.
-  intros Hp Hm. unfold param_repl.
-  destruct (starts_with [92] (grp0 m)); [apply allc_tl; apply (Hm O)|].
-  destruct (py_int (grp_s m 2)) as [pz| |]; [|discriminate|discriminate].
-  destruct (pz =? 0)%Z; [apply (Hm O)|].
-  set (param0 := if (Z.of_nat (length params) <? pz)%Z then [] else nth (Z.to_nat pz - 1) params []).
-  assert (H0 : rfree param0).
-  { unfold param0. destruct (_ <? _)%Z; [apply allc_nil|].
-    destruct (nth_in_or_default (Z.to_nat pz - 1) params []) as [Hin | ->]; [|apply allc_nil].
-    rewrite Forall_forall in Hp. apply Hp. exact Hin. }
-  set (param := if nonempty (grp_s m 3) then _ else param0).
-  assert (H1 : rfree param).
-  { unfold param. destruct (nonempty (grp_s m 3)); [|exact H0].
-    destruct (starts_with [92] (grp_s m 3)); [apply allc_app; split; [exact H0|apply allc_tl, Hm]|].
-    destruct (is_empty param0); [|exact H0]. apply allc_replace_all'; [rf_lit|apply Hm]. }
-  destruct (str_eqb (grp_s m 1) _); [apply Hsr; exact H1|exact H1].
-Qed.
-
-Lemma macro_repl_simple_good text silent m : (forall k, rfree (grp_s m k)) ->
-  good rfree (macro_repl sr s text silent true m).
-Proof.
-  intros Hm. unfold macro_repl.
-  destruct (starts_with [92] (grp0 m)); [apply allc_tl, (Hm O)|].
-  destruct (starts_with [63] (grp_s m 2)).
-  { eapply good_bind with (P := fun _ => True); [destruct silent; exact Logic.I|]. intros _ _. apply (Hm O). }
-  destruct (getValue s (grp_s m 1)) as [value|] eqn:Ev.
-  2:{ eapply good_bind with (P := fun _ => True); [destruct silent; exact Logic.I|]. intros _ _. apply (Hm O). }
-  apply getValue_rfree in Ev. exact Ev.
-Qed.
-
-Lemma macro_repl_good text silent m : (forall k, rfree (grp_s m k)) ->
-  good (allc p2) (macro_repl sr s text silent false m).
-Proof.
-  intros Hm. unfold macro_repl.
-  destruct (starts_with [92] (grp0 m)); [apply rfree_p2, allc_tl, (Hm O)|].
-  destruct (starts_with [63] (grp_s m 2)).
-  { eapply good_bind with (P := fun _ => True); [destruct silent; exact Logic.I|]. intros _ _. apply rfree_p2, (Hm O). }
-  destruct (getValue s (grp_s m 1)) as [value|] eqn:Ev.
-  2:{ eapply good_bind with (P := fun _ => True); [destruct silent; exact Logic.I|]. intros _ _. apply rfree_p2, (Hm O). }
-  apply getValue_rfree in Ev.
-  destruct (replace_all _ _ (grp_s m 2)) as [|c ptail] eqn:Ep; [discriminate|].
-  assert (Hpt : rfree (c :: ptail)).
-  { rewrite <- Ep. apply allc_replace_all'; [rf_lit|apply Hm]. }
-  apply allc_cons in Hpt as [_ Hpt].
-  destruct (c =? 124).
-  { eapply good_weaken; [apply rfree_p2|]. apply isub_good; [exact Ev|]. intros m' Hm'.
-    apply param_repl_good; [apply allc_split_char; exact Hpt|exact Hm']. }
-  destruct ((c =? 33) || (c =? 61)).
-  2:{ eapply good_bind with (P := fun _ => True); [exact Logic.I|]. intros _ _. apply allc_nil. }
-  destruct (parse_regex _ false false) as [rx| |]; [| |discriminate].
-  - cbn. destruct (if c =? 33 then _ else _); [intros x [<-|[]]; unfold p2; lia|apply allc_nil].
-  - eapply good_bind with (P := fun _ => True); [destruct silent; exact Logic.I|]. intros _ _. apply rfree_p2, (Hm O).
-Qed.
-
-Lemma macros_render_good text silent : rfree text -> good rfree (macros_render sr s text silent).
-Proof.
-  intros Ht. unfold macros_render.
-  eapply good_bind with (P := rfree).
-  { apply isub_good; [exact Ht|]. intros m Hm. apply macro_repl_simple_good. exact Hm. }
-  intros r1 H1. eapply good_bind with (P := allc p2).
-  { apply isub_good2 with (P := fun x => 2 < x); [intros x Hx; unfold p2; lia|exact H1|].
-    intros m Hm. apply macro_repl_good. exact Hm. }
-  intros r2 H2. destruct (existsb (N.eqb 2) r2) eqn:E.
-  - apply allc_join; [intros x [<-|[]]; cbv beta; lia|].
-    pose proof (allc_split_char p2 10 r2 H2) as Hl. induction Hl as [|l ls Hl Hls IH]; cbn [filter]; [constructor|].
-    destruct (existsb (N.eqb 2) l) eqn:El; cbn [negb]; [exact IH|]. constructor; [apply p2_no2_rfree; auto|exact IH].
-  - apply p2_no2_rfree; auto.
-Qed.
-End Macros.
-
-(* ---- inline entry points used by the block layer ---- *)
-Lemma spans_ok fuel s : ienv_ok s -> sr_ok (spans_render fuel s).
-Proof. intros [He _]. apply spans_render_good. exact He. Qed.
-
-Lemma macros_top_ok fuel s silent : ienv_ok s -> sr_ok (fun t => macros_render_top fuel s t silent).
-Proof. intros Hs t Ht. apply macros_render_good; auto using spans_ok. Qed.
-
-Lemma replaceInline_top_good fuel s t e : ienv_ok s -> rfree t -> good rfree (replaceInline_top fuel s (Some t) e).
-Proof. intros Hs Ht. apply replaceInline_good; auto using spans_ok, macros_top_ok. Qed.
-
-Lemma replaceMatch_top_good fuel s m ng repl e : ienv_ok s -> (forall k, rfree (grp_s m k)) -> rfree repl ->
-  good rfree (replaceMatch_top fuel s m ng repl e).
-Proof. intros Hs Hm Hr. apply replaceMatch_good; auto using spans_ok, macros_top_ok. Qed.
-
 (* ---- the session invariant ---- *)
-Definition dok (d : ddef) : Prop := rfree (d_openTag d) /\ rfree (d_closeTag d).
+(* tags reserved-free; the closing pattern has no group, or a group 1
+   that takes part in every match (Reader.readTo returns it) *)
+Definition para_re : cre := {| re_ast := RGrp 1 (RRep true 0 None (RAny false)); re_groups := 1 |}.
+
+(* name and opening pattern of a block definition never change: they are those of a default definition, of which every
+   one but the paragraph's cannot match the empty string or a lone backslash *)
+Definition dre_ok (n : str) (r : cre) : Prop :=
+  (str_eqb n $"paragraph" = true /\ r = para_re) \/
+  (str_eqb n $"paragraph" = false /\ nullable (re_ast r) = false /\ re_search r [92] = None).
+
+Definition dok (d : ddef) : Prop :=
+  rfree (d_openTag d) /\ rfree (d_closeTag d) /\
+  (re_groups (d_closeRe d) = O \/ always_grp 1 (re_ast (d_closeRe d)) = true) /\ dre_ok (d_name d) (d_openRe d).
+
+(* a definition whose filter reads group 1 keeps a pattern in which group 1 takes part in every match, also when its
+   pattern text is compiled again with other flags by a redefinition *)
+Definition filt_ok2 (d : rdef) : Prop :=
+  filt_ok d /\
+  match r_filter d with
+  | RfHtml | RfEntity => forall ic ml rx, parse_regex (r_pat d) ic ml = POk rx -> always_grp 1 (re_ast rx) = true /\ (0 < re_groups rx)%nat
+  | _ => True
+  end.
 
 Record Sok (s : session) : Prop := {
   so_env : ienv_ok (ienv_of s);
+  so_filt : Forall filt_ok2 (s_repls s);
   so_dblocks : Forall dok (s_dblocks s);
   so_classes : rfree (p_classes s);
   so_id : rfree (p_id s);
   so_css : rfree (p_css s);
   so_attrs : rfree (p_attrs s) }.
 
+(* the exceptions that can escape: the two inline ones, the list-stack underflow (known finding), and the case that the
+   pattern of a content filter (indented paragraph, macro definition) does not match what its block pattern matched *)
+Definition blk_exn (e : exn) : Prop :=
+  e = ExIntTooLong \/ e = ExUnsupported \/ e = ExPopEmpty \/ e = ExFilter.
+Ltac bx := unfold blk_exn; tauto.
+
 Definition tok {A} (Q : A -> Prop) (m : M A) : Prop :=
-  forall s, Sok s -> match m s with Ok (a, s') => Q a /\ Sok s' | _ => True end.
+  forall s, Sok s -> match m s with Ok (a, s') => Q a /\ Sok s' | Raise e => blk_exn e | Fuel => True end.
 
 Lemma tok_ret {A} (Q : A -> Prop) a : Q a -> tok Q (ret a).
 Proof. intros H s Hs. simpl. auto. Qed.
 
-Lemma tok_raise {A} (Q : A -> Prop) e : tok Q (@raise A e).
-Proof. intros s Hs. exact Logic.I. Qed.
+Lemma tok_raise {A} (Q : A -> Prop) e : blk_exn e -> tok Q (@raise A e).
+Proof. intros He s Hs. exact He. Qed.
 
 Lemma tok_fuel {A} (Q : A -> Prop) : tok Q (@out_of_fuel A).
 Proof. intros s Hs. exact Logic.I. Qed.
@@ -307,7 +82,7 @@ Lemma tok_seq {A B} (Q : B -> Prop) (m : M A) (k : M B) : tok (fun _ => True) m 
 Proof. intros Hm Hk. eapply tok_bind; [exact Hm|]. intros _ _. exact Hk. Qed.
 
 Lemma Sok_log s v : Sok s -> Sok (set_log s v).
-Proof. intros [H1 H2 H3 H4 H5 H6]. destruct s. constructor; assumption. Qed.
+Proof. intros [H1 H2 H3 H4 H5 H6 H7]. destruct s. constructor; assumption. Qed.
 
 Lemma tok_log_msg msg : tok (fun _ => True) (log_msg msg).
 Proof. apply tok_modify. intros s Hs. apply Sok_log. exact Hs. Qed.
@@ -318,16 +93,36 @@ Proof.
   apply tok_seq; [apply tok_log_msg|exact IH].
 Qed.
 
-Lemma tok_lift {A} (Q : A -> Prop) (f : ienv -> I A) : (forall e, ienv_ok e -> good Q (f e)) -> tok Q (lift f).
+Lemma filt_ok2_env s : Sok s -> Forall filt_ok (en_repls (ienv_of s)).
+Proof. intros Hs. pose proof (so_filt s Hs) as H. cbn. eapply Forall_impl; [|exact H]. intros d [Hd _]. exact Hd. Qed.
+
+(* an inline computation: its value postcondition, and the exceptions it may raise *)
+Lemma tok_lift {A} (Q : A -> Prop) (f : ienv -> I A) :
+  (forall e, ienv_ok e -> Forall filt_ok (en_repls e) -> good Q (f e) /\ raises_only inline_exn (f e)) -> tok Q (lift f).
 Proof.
-  intros H s Hs. unfold lift. specialize (H (ienv_of s) (so_env s Hs)). unfold good in H.
+  intros H s Hs. unfold lift. destruct (H (ienv_of s) (so_env s Hs) (filt_ok2_env s Hs)) as [G R]. unfold good in G. unfold raises_only in R.
   destruct (f (ienv_of s)) as [[a msgs]|e|]; auto.
-  pose proof (tok_log_msgs msgs s Hs) as Hl. unfold bind. destruct (log_msgs msgs s) as [[u s1]|e|]; auto.
-  simpl. destruct Hl. auto.
+  - pose proof (tok_log_msgs msgs s Hs) as Hl. unfold bind. destruct (log_msgs msgs s) as [[u s1]|e|]; auto.
+    simpl. destruct Hl. auto.
+  - destruct R as [-> | ->]; bx.
 Qed.
 
+Section InlineTok.
+Variable fuel : nat.
+
+Lemma tok_replaceInline t e : rfree t -> tok rfree (lift (fun s => replaceInline_top fuel s (Some t) e)).
+Proof. intros Ht. apply tok_lift. intros env He Hf. split; [apply replaceInline_top_good; auto|apply replaceInline_top_raises; auto]. Qed.
+
+Lemma tok_macros_top t silent : rfree t -> tok rfree (lift (fun s => macros_render_top fuel s t silent)).
+Proof. intros Ht. apply tok_lift. intros env He Hf. split; [apply macros_top_ok; auto|apply macros_render_top_raises; auto]. Qed.
+
+Lemma tok_replaceMatch m ng repl e : (forall k, rfree (grp_s m k)) -> rfree repl ->
+  tok rfree (lift (fun s => replaceMatch_top fuel s m ng repl e)).
+Proof. intros Hm Hr. apply tok_lift. intros env He Hf. split; [apply replaceMatch_top_good; auto|apply replaceMatch_top_raises; auto]. Qed.
+End InlineTok.
+
 (* setters *)
-Ltac sok_set := let H := fresh in intros H; destruct H as [? ? ? ? ? ?];
+Ltac sok_set := let H := fresh in intros H; destruct H as [? ? ? ? ? ? ?];
   match goal with s : session |- _ => destruct s end; constructor; cbn in *; auto.
 
 Lemma Sok_classes s v : rfree v -> Sok s -> Sok (set_classes s v).
@@ -346,42 +141,62 @@ Lemma Sok_ids s v : Sok s -> Sok (set_ids s v).
 Proof. sok_set. Qed.
 Lemma Sok_mode s v : Sok s -> Sok (set_mode s v).
 Proof.
-  intros [[[H1 H2 H3] H4] H5 H6 H7 H8 H9]. destruct s. constructor; cbn in *; auto.
+  intros [[[H1 H2 H3] H4] H5 H6 H7 H8 H9 H10]. destruct s. constructor; cbn in *; auto.
   constructor; [constructor|]; cbn in *; auto.
 Qed.
 Lemma Sok_cb s v : Sok s -> Sok (set_cb s v).
 Proof. sok_set. Qed.
 Lemma Sok_repl s v : rfree v -> Sok s -> Sok (set_repl s v).
 Proof.
-  intros Hv [[[H1 H2 H3] H4] H5 H6 H7 H8 H9]. destruct s. constructor; cbn in *; auto.
+  intros Hv [[[H1 H2 H3] H4] H5 H6 H7 H8 H9 H10]. destruct s. constructor; cbn in *; auto.
   constructor; [constructor|]; cbn in *; auto.
 Qed.
 Lemma Sok_macros s v : Forall (fun nv => rfree (snd nv)) v -> Sok s -> Sok (set_macros s v).
 Proof.
-  intros Hv [[[H1 H2 H3] H4] H5 H6 H7 H8 H9]. destruct s. constructor; cbn in *; auto.
+  intros Hv [[[H1 H2 H3] H4] H5 H6 H7 H8 H9 H10]. destruct s. constructor; cbn in *; auto.
   constructor; [constructor|]; cbn in *; auto.
 Qed.
 Lemma Sok_quotes s v : qdefs_ok v -> Sok s -> Sok (set_quotes s v).
 Proof.
-  intros Hv [[[H1 H2 H3] H4] H5 H6 H7 H8 H9]. destruct s. constructor; cbn in *; auto.
+  intros Hv [[[H1 H2 H3] H4] H5 H6 H7 H8 H9 H10]. destruct s. constructor; cbn in *; auto.
   constructor; [constructor|]; cbn in *; auto.
 Qed.
-Lemma Sok_repls s v : Forall (fun d => rfree (r_repl d)) v -> Sok s -> Sok (set_repls s v).
+Lemma Sok_repls s v : Forall (fun d => rfree (r_repl d)) v -> Forall filt_ok2 v -> Sok s -> Sok (set_repls s v).
 Proof.
-  intros Hv [[[H1 H2 H3] H4] H5 H6 H7 H8 H9]. destruct s. constructor; cbn in *; auto.
+  intros Hv Hf [[[H1 H2 H3] H4] H5 H6 H7 H8 H9 H10]. destruct s. constructor; cbn in *; auto.
   constructor; [constructor|]; cbn in *; auto.
 Qed.
 Lemma Sok_dblocks s v : Forall dok v -> Sok s -> Sok (set_dblocks s v).
 Proof. intros Hv. sok_set. Qed.
 
 (* ---- reader ---- *)
-Definition rdok (rd : reader) : Prop := Forall rfree rd.
+(* lines: reserved-free and without a line feed *)
+Definition lfree : str -> Prop := allc (fun x => 2 < x /\ x <> 10).
+
+Lemma lfree_rfree l : lfree l -> rfree l.
+Proof. intros H x Hx. apply H in Hx. apply Hx. Qed.
+
+Lemma lfree_intro l : rfree l -> (forall x, In x l -> x <> 10) -> lfree l.
+Proof. intros H1 H2 x Hx. split; [apply H1|apply H2]; exact Hx. Qed.
+
+Definition rdok (rd : reader) : Prop := Forall lfree rd.
+(* the cursor line exists and is not empty *)
+Definition rdne (rd : reader) : Prop := match rd with [] => False | cur :: _ => cur <> [] end.
+
+Lemma rdok_rfree rd : rdok rd -> Forall rfree rd.
+Proof. intros H. eapply Forall_impl; [|exact H]. apply lfree_rfree. Qed.
 
 Lemma rdok_tl rd : rdok rd -> rdok (tl rd).
 Proof. destruct rd; [auto|]. intros H. inversion H; auto. Qed.
 
 Lemma rdok_skip rd : rdok rd -> rdok (skipBlankLines rd).
 Proof. induction 1 as [|l t Hl Ht IH]; simpl; [constructor|]. destruct (is_empty (strip l)); [exact IH|constructor; auto]. Qed.
+
+Lemma rdne_skip rd : skipBlankLines rd <> [] -> rdne (skipBlankLines rd).
+Proof.
+  induction rd as [|l t IH]; simpl; [congruence|]. destruct (is_empty (strip l)) eqn:E; [exact IH|].
+  intros _. simpl. intros ->. discriminate.
+Qed.
 
 Lemma re_search_groups P r text m : re_search r text = Some m -> allc P text -> forall k, allc P (grp_s m k).
 Proof. intros H Ht. apply re_search_spec in H. apply (match_spec_allc P _ _ _ H Ht). Qed.
@@ -394,6 +209,13 @@ Proof. intros H. eapply (match_at_spec r text [] text None m); [reflexivity|exac
 
 Lemma re_match_groups P r text m : re_match r text = Some m -> allc P text -> forall k, allc P (grp_s m k).
 Proof. intros H Ht. apply re_match_spec in H. apply (match_spec_allc P _ _ _ H Ht). Qed.
+
+Lemma match_nonempty r text m : match_spec r text m -> nullable (re_ast r) = false -> grp0 m <> [].
+Proof.
+  intros [pre w post p fin Hs Hst Hen Hg Mrun Hrest Hwf] Hn.
+  pose proof (proj1 nonnull_consumes _ _ _ Mrun) as [_ Hlt]. specialize (Hlt Hn). cbn in Hlt. rewrite Hrest, app_length in Hlt.
+  unfold grp0, grp_s, grp. rewrite Hg. cbn. destruct w; [simpl in Hlt; lia|discriminate].
+Qed.
 
 Lemma readTo_ok rx : forall rd ls rd', rdok rd -> readTo rx rd = Ok (ls, rd') -> rdok ls /\ rdok rd'.
 Proof.
@@ -408,17 +230,31 @@ Proof.
       destruct (IH ls0 rd' Ht eq_refl) as [H1 H2]. split; [constructor; auto|exact H2].
 Qed.
 
+Lemma readTo_noraise rx : (re_groups rx = O \/ always_grp 1 (re_ast rx) = true) ->
+  forall rd e, readTo rx rd <> Raise e.
+Proof.
+  intros Hrx. induction rd as [|l t IH]; intros e; cbn [readTo]; [discriminate|].
+  destruct (re_search rx l) as [m|] eqn:E.
+  - destruct (Nat.ltb 0 (re_groups rx)) eqn:Eg; [|discriminate]. apply PeanoNat.Nat.ltb_lt in Eg.
+    destruct Hrx as [H0|Ha]; [lia|]. apply re_search_spec in E.
+    destruct (match_spec_grp_some rx l m O E Ha Eg) as (t1 & ->). discriminate.
+  - destruct (readTo rx t) as [[ls rd']|e'|] eqn:E0; try discriminate. exfalso. eapply IH; eauto.
+Qed.
+
 Lemma mk_reader_ok text : rdok (mk_reader text).
 Proof.
-  unfold mk_reader, re_split. destruct (re_scan _ (blank_reserved text)) as [l tl] eqn:E.
-  assert (Hb : rfree (blank_reserved text)).
-  { intros x Hx. unfold blank_reserved in Hx. apply in_map_iff in Hx as (c & <- & _).
-    destruct ((c =? 0) || (c =? 1) || (c =? 2)) eqn:Ec; cbv beta; [lia|].
-    apply orb_false_iff in Ec as [Ec E2]. apply orb_false_iff in Ec as [E0 E1].
-    apply N.eqb_neq in E0, E1, E2. lia. }
-  apply (re_scan_allc (fun x => 2 < x)) in E as [Hl Htl]; [|exact Hb].
-  apply Forall_app. split; [|constructor; [exact Htl|constructor]].
-  rewrite Forall_forall in *. intros x Hx. apply in_map_iff in Hx as (bm & <- & Hbm). apply Hl. exact Hbm.
+  assert (R : Forall rfree (mk_reader text)).
+  { unfold mk_reader, re_split. destruct (re_scan _ (blank_reserved text)) as [l tl] eqn:E.
+    assert (Hb : rfree (blank_reserved text)).
+    { intros x Hx. unfold blank_reserved in Hx. apply in_map_iff in Hx as (c & <- & _).
+      destruct ((c =? 0) || (c =? 1) || (c =? 2)) eqn:Ec; cbv beta; [lia|].
+      apply orb_false_iff in Ec as [Ec E2]. apply orb_false_iff in Ec as [E0 E1].
+      apply N.eqb_neq in E0, E1, E2. lia. }
+    apply (re_scan_allc (fun x => 2 < x)) in E as [Hl Htl]; [|exact Hb].
+    apply Forall_app. split; [|constructor; [exact Htl|constructor]].
+    rewrite Forall_forall in *. intros x Hx. apply in_map_iff in Hx as (bm & <- & Hbm). apply Hl. exact Hbm. }
+  pose proof (mk_reader_nlfree text) as N. unfold rdok. rewrite Forall_forall in *. intros l Hl.
+  apply lfree_intro; [apply R; exact Hl|]. intros x Hx ->. specialize (N l Hl 10 Hx). discriminate.
 Qed.
 
 (* ---- blockattributes ---- *)
@@ -444,7 +280,7 @@ Proof.
   intros Ha. unfold blockattributes_parse. apply tok_bind_gets. intros s0 _.
   destruct (parse_skip (s_mode s0)); [apply tok_ret; exact Logic.I|].
   eapply tok_bind with (P := rfree).
-  { apply tok_lift. intros e He. apply replaceInline_top_good; auto. }
+  { apply tok_replaceInline. exact Ha. }
   intros text Ht. destruct (re_match re_blockattributes_parse_0 text) as [m1|] eqn:E1; [|apply tok_ret; exact Logic.I].
   pose proof (re_match_groups (fun x => 2 < x) _ _ _ E1 Ht) as G1.
   destruct (re_match re_blockattributes_parse_1 _) as [m2|] eqn:E2; [|apply tok_ret; exact Logic.I].
@@ -531,14 +367,73 @@ Qed.
 End Blocks.
 
 (* ---- options and definitions ---- *)
+Definition is_para_re (r : cre) : bool :=
+  match re_ast r with
+  | RGrp 1 (RRep true 0 None (RAny false)) => Nat.eqb (re_groups r) 1
+  | _ => false
+  end.
+
+Lemma is_para_re_spec r : is_para_re r = true -> r = para_re.
+Proof.
+  unfold is_para_re. destruct r as [a g]. cbn. destruct a; try discriminate. destruct n as [|[|n]]; try discriminate.
+  destruct a; try discriminate. destruct greedy; try discriminate. destruct mn; try discriminate. destruct mx; try discriminate.
+  destruct a; try discriminate. destruct dotall; try discriminate. intros H. apply PeanoNat.Nat.eqb_eq in H. subst. reflexivity.
+Qed.
+
+Definition dre_okb (n : str) (r : cre) : bool :=
+  if str_eqb n $"paragraph" then is_para_re r
+  else negb (nullable (re_ast r)) && match re_search r [92] with None => true | Some _ => false end.
+
+Lemma dre_okb_spec n r : dre_okb n r = true -> dre_ok n r.
+Proof.
+  unfold dre_okb, dre_ok. destruct (str_eqb n _); intros H.
+  - left. split; [reflexivity|apply is_para_re_spec; exact H].
+  - right. apply andb_prop in H as [H1 H2]. split; [reflexivity|]. split; [apply negb_true_iff; exact H1|].
+    destruct (re_search r [92]); [discriminate|reflexivity].
+Qed.
+
+Definition dokb (d : ddef) : bool :=
+  rfreeb (d_openTag d) && rfreeb (d_closeTag d) &&
+  (Nat.eqb (re_groups (d_closeRe d)) 0 || always_grp 1 (re_ast (d_closeRe d))) && dre_okb (d_name d) (d_openRe d).
+
+Lemma dokb_spec d : dokb d = true -> dok d.
+Proof.
+  unfold dokb, dok. intros H. apply andb_prop in H as [H H5]. apply andb_prop in H as [H H4]. apply andb_prop in H as [H1 H2].
+  split; [apply rfreeb_spec; exact H1|]. split; [apply rfreeb_spec; exact H2|]. split; [|apply dre_okb_spec; exact H5].
+  apply orb_prop in H4 as [H4|H4]; [left; apply PeanoNat.Nat.eqb_eq; exact H4|right; exact H4].
+Qed.
+
+Definition grp1_ok (p : parse_result) : bool :=
+  match p with POk rx => always_grp 1 (re_ast rx) && Nat.ltb 0 (re_groups rx) | _ => true end.
+
+Definition filt_okb (d : rdef) : bool :=
+  match r_filter d with
+  | RfHtml | RfEntity =>
+      always_grp 1 (re_ast (r_re d)) && Nat.ltb 0 (re_groups (r_re d)) &&
+      grp1_ok (parse_regex (r_pat d) false false) && grp1_ok (parse_regex (r_pat d) false true) &&
+      grp1_ok (parse_regex (r_pat d) true false) && grp1_ok (parse_regex (r_pat d) true true)
+  | _ => true
+  end.
+
+Lemma filt_okb_spec d : filt_okb d = true -> filt_ok2 d.
+Proof.
+  unfold filt_okb, filt_ok2, filt_ok. destruct (r_filter d); auto; intros H;
+    repeat (apply andb_prop in H as [H ?]);
+    (split; [split; [assumption|apply PeanoNat.Nat.ltb_lt; assumption]|]);
+    intros ic ml rx Hp; destruct ic, ml;
+    match goal with G : grp1_ok (parse_regex (r_pat d) ?a ?b) = true, Hp : parse_regex (r_pat d) ?a ?b = POk rx |- _ =>
+      rewrite Hp in G; cbn in G; apply andb_prop in G as [G1 G2]; split; [exact G1|apply PeanoNat.Nat.ltb_lt; exact G2] end.
+Qed.
+
 Lemma Sok_init s : Sok (document_init s).
 Proof.
   unfold document_init. constructor; cbn.
   - constructor; [apply env_okb_spec; vm_compute; reflexivity|]. cbn.
     repeat constructor; cbn; apply allc_nil.
-  - assert (H : forallb (fun d => rfreeb (d_openTag d) && rfreeb (d_closeTag d)) dblocks_default = true) by (vm_compute; reflexivity).
-    rewrite forallb_forall in H. rewrite Forall_forall. intros d Hd. apply H in Hd. apply andb_prop in Hd as [A B].
-    split; apply rfreeb_spec; assumption.
+  - assert (H : forallb filt_okb replacements_default = true) by (vm_compute; reflexivity).
+    rewrite forallb_forall in H. rewrite Forall_forall. intros d Hd. apply filt_okb_spec. auto.
+  - assert (H : forallb dokb dblocks_default = true) by (vm_compute; reflexivity).
+    rewrite forallb_forall in H. rewrite Forall_forall. intros d Hd. apply dokb_spec. auto.
   - apply allc_nil.
   - apply allc_nil.
   - apply allc_nil.
@@ -608,14 +503,23 @@ Qed.
 Lemma upd_first_Forall {A} (P : A -> Prop) p f l : Forall P l -> (forall x, P x -> P (f x)) -> Forall P (upd_first p f l).
 Proof. intros Hl Hf. induction Hl as [|x l Hx Hl IH]; cbn; [constructor|]. destruct (p x); constructor; auto. Qed.
 
+Lemma upd_first_Forall_p {A} (P : A -> Prop) p f l : Forall P l -> (forall x, P x -> p x = true -> P (f x)) -> Forall P (upd_first p f l).
+Proof. intros Hl Hf. induction Hl as [|x l Hx Hl IH]; cbn; [constructor|]. destruct (p x) eqn:E; constructor; auto. Qed.
+
 Lemma replacements_setDefinition_ok pattern flags repl : rfree repl ->
   tok (fun _ => True) (replacements_setDefinition pattern flags repl).
 Proof.
-  intros Hr. unfold replacements_setDefinition. destruct (parse_regex _ _ _); [|apply tok_log_msg|apply tok_raise].
+  intros Hr. unfold replacements_setDefinition.
+  destruct (parse_regex pattern _ _) as [c| |] eqn:Ep; [|apply tok_log_msg|apply tok_raise; bx].
   apply tok_modify. intros s Hs. pose proof (eo_repls _ (io_env _ (so_env s Hs))) as Hq. cbn in Hq.
-  destruct (existsb _ (s_repls s)); (apply Sok_repls; [|exact Hs]).
+  pose proof (so_filt s Hs) as Hf.
+  destruct (existsb _ (s_repls s)); (apply Sok_repls; [| |exact Hs]).
   - apply upd_first_Forall; [exact Hq|]. intros d _. exact Hr.
+  - apply upd_first_Forall_p; [exact Hf|]. intros d [Hd1 Hd2] Hp. apply str_eqb_eq in Hp.
+    unfold filt_ok2, filt_ok in *. cbn [r_filter r_re r_pat]. destruct (r_filter d); auto;
+      (split; [rewrite Hp in Hd2; apply (Hd2 _ _ _ Ep)|exact Hd2]).
   - apply Forall_app. split; [exact Hq|constructor; [exact Hr|constructor]].
+  - apply Forall_app. split; [exact Hf|]. constructor; [|constructor]. split; exact Logic.I.
 Qed.
 
 Lemma dblocks_setDefinition_ok name value : rfree value -> tok (fun _ => True) (dblocks_setDefinition name value).
@@ -627,12 +531,12 @@ Proof.
   assert (Hupd : forall d, dok d -> dok (match grp m 1 with
       | Some t1 => mkD (d_name d) t1 (grp_s m 2) (d_openRe d) (d_closeRe d) (d_verify d) (d_delim d) (d_content d) (d_expand d)
       | None => d end)).
-  { intros d Hd. destruct (grp m 1) as [t1|] eqn:E1; [|exact Hd]. split; cbn; [|apply G].
+  { intros d Hd. destruct (grp m 1) as [t1|] eqn:E1; [|exact Hd]. destruct Hd as (_ & _ & Hc). split; cbn; [|split; [apply G|exact Hc]].
     specialize (G 1%nat). unfold grp_s in G. rewrite E1 in G. exact G. }
   destruct (grp m 3) as [o|].
   - destruct (expand_parse _ _ o) as [e msgs]. apply tok_seq; [|apply tok_log_msgs].
     apply tok_modify. intros s Hs. apply Sok_dblocks; [|exact Hs]. apply upd_first_Forall; [apply (so_dblocks s Hs)|].
-    intros d Hd. apply Hupd in Hd. destruct Hd as [A B]. split; cbn; assumption.
+    intros d Hd. apply Hupd in Hd. destruct Hd as (A & B & C & D). split; [exact A|]. split; [exact B|]. split; [exact C|exact D].
   - apply tok_modify. intros s Hs. apply Sok_dblocks; [|exact Hs]. apply upd_first_Forall; [apply (so_dblocks s Hs)|]. exact Hupd.
 Qed.
 
@@ -656,43 +560,67 @@ Definition orf (o : option str) : Prop := forall t, o = Some t -> rfree t.
 Lemma grp_orf m k : (forall j, rfree (grp_s m j)) -> orf (grp m k).
 Proof. intros G t Ht. specialize (G k). unfold grp_s in G. rewrite Ht in G. exact G. Qed.
 
-Lemma macros_expand_ok text : orf text -> tok rfree (macros_expand fuel text).
+Lemma macros_expand_ok text : (exists t, text = Some t) -> orf text -> tok rfree (macros_expand fuel text).
 Proof.
-  intros Ht. unfold macros_expand. apply tok_lift. intros e He. destruct text as [t|]; [|cbn; discriminate].
-  apply replaceInline_top_good; auto.
+  intros (t & ->) Ht. unfold macros_expand. apply tok_replaceInline; apply Ht; reflexivity.
 Qed.
 
-Lemma verifyMacroLine_ok m rd : (forall k, rfree (grp_s m k)) -> rdok rd ->
-  tok (fun r => rdok (snd r)) (verifyMacroLine fuel m rd).
+(* the groups a line filter hands to macro expansion *)
+Definition lfilter_groups (f : lfilter) : list nat :=
+  match f with
+  | LfBlockDef => [2] | LfQuoteDef => [2; 4] | LfReplDef => [3] | LfMacroDef => [2] | LfApiOption => [2]
+  | _ => []
+  end%nat.
+
+Lemma split_char_aux_nosep c s : forall cur, (forall x, In x cur -> x <> c) ->
+  Forall (fun l => forall x, In x l -> x <> c) (split_char_aux c s cur).
 Proof.
-  intros G Hrd. unfold verifyMacroLine. destruct (re_search re_macros_DEF_OPEN (grp0 m)); [apply tok_ret; exact Hrd|].
+  induction s as [|y t IH]; intros cur Hc; simpl.
+  - constructor; [|constructor]. intros x Hx. apply Hc. rewrite frev_rev in Hx. apply in_rev. exact Hx.
+  - destruct (y =? c) eqn:E.
+    + constructor; [|apply IH; intros x []]. intros x Hx. apply Hc. rewrite frev_rev in Hx. apply in_rev. exact Hx.
+    + apply IH. intros x [<-|Hx]; [apply N.eqb_neq; exact E|apply Hc; exact Hx].
+Qed.
+
+Lemma split_char_lfree value : rfree value -> Forall lfree (split_char 10 value).
+Proof.
+  intros Hv. pose proof (allc_split_char (fun x => 2 < x) 10 value Hv) as H1.
+  pose proof (split_char_aux_nosep 10 value [] (fun x (H : In x []) => match H with end)) as H2.
+  unfold split_char in *. rewrite Forall_forall in *. intros l Hl. apply lfree_intro; [apply H1|apply H2]; exact Hl.
+Qed.
+
+Lemma verifyMacroLine_ok m rd : (forall k, rfree (grp_s m k)) -> rdok rd -> rd <> [] ->
+  tok (fun r => rdok (snd r) /\ hd_error (snd r) = hd_error rd) (verifyMacroLine fuel m rd).
+Proof.
+  intros G Hrd Hne. unfold verifyMacroLine. destruct (re_search re_macros_DEF_OPEN (grp0 m)); [apply tok_ret; split; [exact Hrd|reflexivity]|].
   eapply tok_bind with (P := rfree).
-  { apply tok_lift. intros e He. apply macros_top_ok; [exact He|apply (G O)]. }
-  intros value Hv. destruct (_ || _); [apply tok_ret; exact Hrd|].
-  destruct rd as [|cur rest]; [apply tok_raise|]. apply tok_ret. cbn. inversion Hrd; subst.
-  constructor; [assumption|]. apply Forall_app. split; [apply allc_split_char; exact Hv|assumption].
+  { apply tok_macros_top. apply (G O). }
+  intros value Hv. destruct (_ || _); [apply tok_ret; split; [exact Hrd|reflexivity]|].
+  destruct rd as [|cur rest]; [congruence|]. apply tok_ret. cbn. inversion Hrd; subst. split; [|reflexivity].
+  constructor; [assumption|]. apply Forall_app. split; [apply split_char_lfree; exact Hv|assumption].
 Qed.
 
-Lemma line_filter_ok d m : rfree (l_repl d) -> (forall k, rfree (grp_s m k)) -> tok rfree (line_filter fuel d m).
+Lemma line_filter_ok d m : rfree (l_repl d) -> (forall k, rfree (grp_s m k)) ->
+  (forall k, In k (lfilter_groups (l_filter d)) -> exists t, grp m k = Some t) -> tok rfree (line_filter fuel d m).
 Proof.
-  intros Hr G. unfold line_filter.
+  intros Hr G Hgs. unfold line_filter.
   assert (RM : tok rfree (lift (fun s => replaceMatch_top fuel s m (re_groups (l_re d)) (l_repl d) expand_macros))).
-  { apply tok_lift. intros e He. apply replaceMatch_top_good; auto. }
+  { apply tok_replaceMatch; auto. }
   destruct (l_filter d).
   - destruct (l_repl d) eqn:E; [apply tok_ret; apply allc_nil|exact RM].
   - apply tok_ret, allc_nil.
   - apply tok_bind_gets. intros s0 _. destruct (blockDefFilter_skip _); [apply tok_ret, allc_nil|].
-    eapply tok_bind; [apply macros_expand_ok, grp_orf, G|]. intros v Hv.
+    eapply tok_bind; [apply macros_expand_ok; [apply Hgs; cbn; auto|apply grp_orf, G]|]. intros v Hv.
     apply tok_seq; [apply dblocks_setDefinition_ok; exact Hv|apply tok_ret, allc_nil].
   - apply tok_bind_gets. intros s0 _. destruct (quoteDefFilter_skip _); [apply tok_ret, allc_nil|].
-    eapply tok_bind; [apply macros_expand_ok, grp_orf, G|]. intros o Ho.
-    eapply tok_bind; [apply macros_expand_ok, grp_orf, G|]. intros c Hc.
+    eapply tok_bind; [apply macros_expand_ok; [apply Hgs; cbn; auto|apply grp_orf, G]|]. intros o Ho.
+    eapply tok_bind; [apply macros_expand_ok; [apply Hgs; cbn; auto|apply grp_orf, G]|]. intros c Hc.
     apply tok_seq; [apply quotes_setDefinition_ok; cbn; auto|apply tok_ret, allc_nil].
   - apply tok_bind_gets. intros s0 _. destruct (replacementDefFilter_skip _); [apply tok_ret, allc_nil|].
-    eapply tok_bind; [apply macros_expand_ok, grp_orf, G|]. intros r Hr'.
+    eapply tok_bind; [apply macros_expand_ok; [apply Hgs; cbn; auto|apply grp_orf, G]|]. intros r Hr'.
     apply tok_seq; [apply replacements_setDefinition_ok; exact Hr'|apply tok_ret, allc_nil].
   - apply tok_bind_gets. intros s0 _. destruct (macroDefFilter_skip _); [apply tok_ret, allc_nil|].
-    eapply tok_bind; [apply macros_expand_ok, grp_orf, G|]. intros v Hv.
+    eapply tok_bind; [apply macros_expand_ok; [apply Hgs; cbn; auto|apply grp_orf, G]|]. intros v Hv.
     apply tok_seq; [apply macros_setValue_ok; exact Hv|apply tok_ret, allc_nil].
   - apply tok_bind_gets. intros s0 _.
     apply tok_seq.
@@ -701,46 +629,95 @@ Proof.
     apply allc_replace_all'; [|exact Hres]. rf.
   - apply tok_bind_gets. intros s0 _. destruct (anchorFilter_skip _); [apply tok_ret, allc_nil|exact RM].
   - apply tok_bind_gets. intros s0 _. destruct (apiOptionFilter_skip _); [apply tok_ret, allc_nil|].
-    eapply tok_bind; [apply macros_expand_ok, grp_orf, G|]. intros v Hv.
+    eapply tok_bind; [apply macros_expand_ok; [apply Hgs; cbn; auto|apply grp_orf, G]|]. intros v Hv.
     apply tok_seq; [apply setOption_doc_ok; exact Hv|apply tok_ret, allc_nil].
 Qed.
 
-Definition lbres (r : option str * reader) : Prop := orf (fst r) /\ rdok (snd r).
+(* the facts about a line definition's pattern: it cannot match the empty string, it does not match a lone backslash, and
+   the groups its filter reads take part in every match *)
+Definition ldef_ok (d : ldef) : Prop :=
+  rfree (l_repl d) /\ nullable (re_ast (l_re d)) = false /\ re_search (l_re d) [92] = None /\
+  forall k, In k (lfilter_groups (l_filter d)) -> always_grp k (re_ast (l_re d)) = true /\ (0 < k <= re_groups (l_re d))%nat.
 
-Lemma lineblocks_loop_ok allowed : forall defs rd, Forall (fun d => rfree (l_repl d)) defs -> rdok rd ->
-  tok lbres (lineblocks_loop fuel defs rd allowed).
+Lemma factor_single (x : char) a w b : a ++ w ++ b = [x] -> w <> [] -> w = [x].
 Proof.
-  induction defs as [|d ds IH]; intros rd Hd Hrd; cbn [lineblocks_loop].
-  { apply tok_ret. split; [intros t Ht; discriminate|exact Hrd]. }
-  inversion Hd as [|? ? Hd1 Hds]; subst.
+  intros H Hw. destruct w as [|z w]; [congruence|]. destruct a as [|y a]; simpl in H.
+  - injection H as H1 H2. apply app_eq_nil in H2. destruct H2 as [H2 _]. rewrite H1, H2. reflexivity.
+  - injection H as H1 H2. apply app_eq_nil in H2. destruct H2 as [_ H2]. discriminate H2.
+Qed.
+
+(* the line after an escaping backslash has been dropped is not empty *)
+Lemma escape_tl r cur m g0 : re_search r cur = Some m -> grp0 m = 92 :: g0 -> re_search r [92] = None -> tl cur <> [].
+Proof.
+  intros E E0 Hb Ht. pose proof (re_search_spec _ _ _ E) as Sp. destruct (match_spec_cut _ _ _ Sp) as (a & w & b & Hs & _ & _ & Hg & _).
+  assert (Hw : w = 92 :: g0). { unfold grp0, grp_s in E0. rewrite Hg in E0. exact E0. }
+  destruct cur as [|x t]; [destruct a; subst; discriminate|]. simpl in Ht. subst t.
+  symmetry in Hs. apply factor_single in Hs; [|subst w; discriminate]. rewrite Hw in Hs. injection Hs as Hx _. rewrite <- Hx in E. pose proof (eq_trans (eq_sym E) Hb) as C. discriminate C.
+Qed.
+
+Definition lbres (rd0 : reader) (r : option str * reader) : Prop :=
+  orf (fst r) /\ rdok (snd r) /\ (fst r = None -> snd r <> [] /\ (rdne rd0 -> rdne (snd r))).
+
+Lemma lineblocks_loop_ok allowed : forall defs rd, Forall ldef_ok defs -> rdok rd -> rd <> [] ->
+  tok (fun r => orf (fst r) /\ rdok (snd r) /\ (fst r = None -> snd r <> [] /\ (rdne rd -> rdne (snd r))))
+      (lineblocks_loop fuel defs rd allowed).
+Proof.
+  induction defs as [|d ds IH]; intros rd Hd Hrd Hne; cbn [lineblocks_loop].
+  { apply tok_ret. split; [intros t Ht; discriminate|]. split; [exact Hrd|]. intros _. split; [exact Hne|auto]. }
+  inversion Hd as [|? ? (Hd1 & Hn & Hbs & Hd2) Hds]; subst.
   destruct (_ && _); [apply IH; auto|].
-  destruct rd as [|cur rest]; [apply tok_raise|]. inversion Hrd as [|? ? Hcur Hrest]; subst.
+  destruct rd as [|cur rest]; [congruence|]. inversion Hrd as [|? ? Hcur0 Hrest]; subst.
+  pose proof (lfree_rfree _ Hcur0) as Hcur.
   destruct (re_search (l_re d) cur) as [m|] eqn:E; [|apply IH; auto].
   pose proof (re_search_groups (fun x => 2 < x) _ _ _ E Hcur) as G.
-  destruct (grp0 m) as [|c0 g0] eqn:E0; [apply tok_raise|].
-  destruct (c0 =? 92). { apply IH; [auto|]. constructor; [apply allc_tl; exact Hcur|exact Hrest]. }
-  eapply tok_bind with (P := fun vr => rdok (snd vr)).
+  pose proof (re_search_spec _ _ _ E) as Sp.
+  pose proof (match_nonempty _ _ _ Sp Hn) as Hm0.
+  destruct (grp0 m) as [|c0 g0] eqn:E0; [congruence|].
+  destruct (c0 =? 92) eqn:Ec.
+  { apply N.eqb_eq in Ec. subst c0. pose proof (escape_tl _ _ _ _ E E0 Hbs) as Htl.
+    eapply tok_weaken; [|apply IH; [auto|constructor; [apply allc_tl; exact Hcur0|exact Hrest]|discriminate]].
+    intros r (R1 & R2 & R3). split; [exact R1|]. split; [exact R2|]. intros Hn0. destruct (R3 Hn0) as [R4 R5].
+    split; [exact R4|]. intros _. apply R5. exact Htl. }
+  eapply tok_bind with (P := fun vr => rdok (snd vr) /\ hd_error (snd vr) = Some cur).
   { destruct (l_verify d).
-    - apply tok_ret. exact Hrd.
-    - apply verifyMacroLine_ok; auto.
-    - eapply tok_bind; [apply blockattributes_parse_ok; rewrite <- E0; apply (G O)|]. intros b _. apply tok_ret. exact Hrd. }
-  intros [ok rd1] Hrd1. cbn [snd] in Hrd1. destruct (negb ok); [apply IH; auto|].
-  eapply tok_bind; [apply line_filter_ok; auto|]. intros text Ht.
+    - apply tok_ret. split; [exact Hrd|reflexivity].
+    - apply verifyMacroLine_ok; [auto|exact Hrd|discriminate].
+    - eapply tok_bind; [apply blockattributes_parse_ok; rewrite <- E0; apply (G O)|]. intros b _. apply tok_ret. split; [exact Hrd|reflexivity]. }
+  intros [ok rd1] [Hrd1 Hhd]. cbn [snd] in Hrd1, Hhd.
+  assert (Hne1 : rd1 <> []) by (intros ->; discriminate).
+  destruct (negb ok).
+  { eapply tok_weaken; [|apply IH; auto].
+    intros r (R1 & R2 & R3). split; [exact R1|]. split; [exact R2|]. intros Hn0. destruct (R3 Hn0) as [R4 R5].
+    split; [exact R4|]. intros Hc. apply R5. destruct rd1 as [|c1 r1]; [congruence|]. cbn in Hhd. inversion Hhd; subst. exact Hc. }
+  eapply tok_bind.
+  { apply line_filter_ok; auto. intros k Hk. destruct (Hd2 k Hk) as [Ha [Hk0 Hk1]].
+    destruct k as [|k]; [lia|]. eapply match_spec_grp_some; eauto. }
+  intros text Ht.
   destruct text as [|t0 text'].
-  { apply tok_ret. split; [intros t Hs; inversion Hs; apply allc_nil|apply rdok_tl; exact Hrd1]. }
+  { apply tok_ret. split; [intros t Hs; inversion Hs; apply allc_nil|]. split; [apply rdok_tl; exact Hrd1|]. intros Hx; discriminate. }
   eapply tok_bind; [apply injectHtmlAttributes_ok; exact Ht|]. intros text2 Ht2.
-  apply tok_ret. split; [|apply rdok_tl; exact Hrd1]. intros t Hs. inversion Hs; subst.
+  apply tok_ret. split; [|split; [apply rdok_tl; exact Hrd1|intros Hx; discriminate]]. intros t Hs. inversion Hs; subst.
   apply allc_app. split; [exact Ht2|]. destruct (tl rd1); rf.
 Qed.
 
-Lemma lineblocks_defs_ok : Forall (fun d => rfree (l_repl d)) lineblocks_defs.
+Definition ldef_okb (d : ldef) : bool :=
+  rfreeb (l_repl d) && negb (nullable (re_ast (l_re d))) && (match re_search (l_re d) [92] with None => true | Some _ => false end) &&
+  forallb (fun k => always_grp k (re_ast (l_re d)) && Nat.ltb 0 k && Nat.leb k (re_groups (l_re d))) (lfilter_groups (l_filter d)).
+
+Lemma lineblocks_defs_ok : Forall ldef_ok lineblocks_defs.
 Proof.
-  assert (H : forallb (fun d => rfreeb (l_repl d)) lineblocks_defs = true) by (vm_compute; reflexivity).
-  rewrite forallb_forall in H. rewrite Forall_forall. intros d Hd. apply rfreeb_spec. auto.
+  assert (H : forallb ldef_okb lineblocks_defs = true) by (vm_compute; reflexivity).
+  rewrite forallb_forall in H. rewrite Forall_forall. intros d Hd. apply H in Hd. unfold ldef_okb in Hd.
+  apply andb_prop in Hd as [Hd H4]. apply andb_prop in Hd as [Hd H3]. apply andb_prop in Hd as [H1 H2].
+  split; [apply rfreeb_spec; exact H1|]. split; [apply negb_true_iff; exact H2|].
+  split; [destruct (re_search (l_re d) [92]); [discriminate|reflexivity]|].
+  rewrite forallb_forall in H4.
+  intros k Hk. apply H4 in Hk. apply andb_prop in Hk as [Hk K3]. apply andb_prop in Hk as [K1 K2].
+  apply PeanoNat.Nat.ltb_lt in K2. apply PeanoNat.Nat.leb_le in K3. auto.
 Qed.
 
-Lemma lineblocks_render_ok rd allowed : rdok rd -> tok lbres (lineblocks_render fuel rd allowed).
-Proof. intros H. apply lineblocks_loop_ok; [apply lineblocks_defs_ok|exact H]. Qed.
+Lemma lineblocks_render_ok rd allowed : rdok rd -> rd <> [] -> tok (lbres rd) (lineblocks_render fuel rd allowed).
+Proof. intros H Hne. apply lineblocks_loop_ok; [apply lineblocks_defs_ok|exact H|exact Hne]. Qed.
 End Lines.
 
 (* ---- delimitedblocks ---- *)
@@ -779,10 +756,10 @@ Lemma macroDefContentFilter_ok text m e : rfree text -> (forall k, rfree (grp_s 
   tok rfree (macroDefContentFilter fuel text m e).
 Proof.
   intros Ht G. unfold macroDefContentFilter.
-  destruct (re_search re_delimitedblocks_macroDefContentFilter_0 (grp0 m)) as [mm|] eqn:E; [|apply tok_raise].
+  destruct (re_search re_delimitedblocks_macroDefContentFilter_0 (grp0 m)) as [mm|] eqn:E; [|apply tok_raise; bx].
   pose proof (re_search_groups (fun x => 2 < x) _ _ _ E (G O)) as Gm.
   eapply tok_bind with (P := rfree).
-  { apply tok_lift. intros env He. apply replaceInline_top_good; [exact He|].
+  { apply tok_replaceInline.
     apply re_sub_allc; [apply re_sub_allc; [exact Ht|intros; rf]|]. intros m' G'. rf. }
   intros t Ht'. apply tok_seq; [apply macros_setValue_ok; exact Ht'|apply tok_ret, allc_nil].
 Qed.
@@ -790,11 +767,15 @@ Qed.
 Lemma nth_dok i l d : Forall dok l -> dok d -> dok (nth i l d).
 Proof. intros Hl Hd. destruct (nth_in_or_default i l d) as [H | ->]; [|exact Hd]. rewrite Forall_forall in Hl. auto. Qed.
 
-Lemma Sok_set_closeRe i rx s : Sok s -> Sok (set_closeRe i rx s).
+Lemma Sok_set_closeRe i rx s : (re_groups rx = O \/ always_grp 1 (re_ast rx) = true) -> Sok s -> Sok (set_closeRe i rx s).
 Proof.
-  intros Hs. unfold set_closeRe. apply Sok_dblocks; [|exact Hs]. pose proof (so_dblocks s Hs) as Hd.
+  intros Hrx Hs. unfold set_closeRe. apply Sok_dblocks; [|exact Hs]. pose proof (so_dblocks s Hs) as Hd.
   revert i. induction Hd as [|d l Hd Hl IH]; intros i; destruct i; simpl; constructor; auto.
+  destruct Hd as (A & B & C & D). split; [exact A|]. split; [exact B|]. split; [exact Hrx|exact D].
 Qed.
+
+Lemma lit_close_groups delim : re_groups (lit_close delim) = O.
+Proof. reflexivity. Qed.
 
 Section WithDoc.
 Variable doc : str -> M str.
@@ -811,16 +792,17 @@ Proof.
     - apply tok_ret, allc_nil.
     - destruct (grp m 1) as [g|] eqn:Eg; apply tok_ret; [|apply allc_nil]. apply (grp_orf m 1 G). exact Eg.
     - apply tok_seq; [apply tok_when, tok_modify; intros s Hs; apply Sok_classes; [rf|exact Hs]|].
-      apply tok_seq; [apply tok_modify; intros s Hs; apply Sok_set_closeRe; exact Hs|]. apply tok_ret, allc_nil. }
-  intros delimiterText Hdt. apply tok_bind_gets. intros s0 _.
-  destruct (readTo _ rest) as [[content rd1]|e|] eqn:Er; [|apply tok_raise|apply tok_fuel].
+      apply tok_seq; [apply tok_modify; intros s Hs; apply Sok_set_closeRe; [left; apply lit_close_groups|exact Hs]|]. apply tok_ret, allc_nil. }
+  intros delimiterText Hdt. apply tok_bind_gets. intros s0 Hs0.
+  destruct (readTo _ rest) as [[content rd1]|e|] eqn:Er; [| |apply tok_fuel].
+  2:{ exfalso. eapply (readTo_noraise _ (proj1 (proj2 (proj2 (nth_dok i _ d (so_dblocks s0 Hs0) Hd))))); eauto. }
   apply readTo_ok in Er as [Hcontent Hrd1]; [|exact Hrest].
   apply tok_seq. { destruct (_ && _); [apply tok_log_msg|apply tok_ret; exact Logic.I]. }
   apply tok_bind_gets. intros s1 _.
   remember (expand_merge (d_expand (nth i (s_dblocks s1) d)) (p_opts s1)) as expand eqn:Eexp. clear Eexp.
   match goal with |- context [join [10] ?L] => remember L as lines eqn:El end.
-  assert (Hlines : rdok lines).
-  { subst lines. apply Forall_app. split; [|exact Hcontent]. destruct delimiterText; [constructor|constructor; [exact Hdt|constructor]]. }
+  assert (Hlines : Forall rfree lines).
+  { subst lines. apply Forall_app. split; [|apply rdok_rfree; exact Hcontent]. destruct delimiterText; [constructor|constructor; [exact Hdt|constructor]]. }
   clear El.
   eapply tok_bind with (P := rfree).
   2:{ intros out Hout. apply tok_seq; [apply tok_modify; intros s Hs; apply Sok_popts; exact Hs|].
@@ -833,7 +815,8 @@ Proof.
     - apply macroDefContentFilter_ok; auto.
     - apply tok_gets. intros s Hs. apply htmlSafeModeFilter_rfree; [|exact Htext].
       apply (eo_repl _ (io_env _ (so_env s Hs))).
-    - destruct (indentedContentFilter _) as [t|e|] eqn:Ei; [|apply tok_raise|apply tok_fuel].
+    - destruct (indentedContentFilter _) as [t|e|] eqn:Ei; [| |apply tok_fuel].
+      2:{ unfold indentedContentFilter in Ei. destruct (re_search _ _); [discriminate|]. inversion Ei; subst. apply tok_raise; bx. }
       apply tok_ret. eapply indentedContentFilter_ok; eauto.
     - apply tok_ret. apply quoteParagraphContentFilter_ok. exact Htext. }
   intros text Ht. apply tok_bind_gets. intros s2 Hs2.
@@ -846,7 +829,7 @@ Proof.
   intros opentag Hopen. eapply tok_bind with (P := rfree).
   { destruct (truthy (e_container expand)).
     - apply tok_seq; [apply tok_modify; intros s Hs; apply Sok_popts; exact Hs|]. apply Hdoc. exact Ht1.
-    - apply tok_lift. intros env He. apply replaceInline_top_good; auto. }
+    - apply tok_replaceInline. exact Ht1. }
   intros text2 Ht2. apply tok_bind_gets. intros s3 Hs3.
   assert (Hclose : rfree (d_closeTag (nth i (s_dblocks s3) d'))) by (apply nth_dok; [apply (so_dblocks s3 Hs3)|exact Hd']).
   remember (d_closeTag (nth i (s_dblocks s3) d')) as closetag eqn:Ec. clear Ec.
@@ -854,29 +837,94 @@ Proof.
     match goal with |- _ (if ?b then _ else _) => destruct b end; rf.
 Qed.
 
-Lemma dblock_loop_ok allowed : forall k i rd, rdok rd -> tok lbres (dblock_loop fuel doc k i rd allowed).
+(* the paragraph pattern (a greedy dot-star in a group) on a line that starts with a character other than a line feed: the greedy loop takes at
+   least that character, so the matched text is not empty *)
+Lemma any_loop_progress (mb : matcher) (k : cont) :
+  (forall K i p rest c, mb K i p rest c = match rest with [] => None | x :: t => if negb (x =? 10) then K (i + 1) (Some x) t c else None end) ->
+  (forall j p r c, exists c', k j p r c = Some (j, c')) ->
+  forall fl cnt last i p rest c, fl <> [] ->
+  exists j c', loop mb k true 0 None fl cnt last i p rest c = Some (j, c') /\ i <= j.
 Proof.
-  induction k as [|k IH]; intros i rd Hrd; cbn [dblock_loop].
-  { apply tok_ret. split; [intros t Ht; discriminate|exact Hrd]. }
-  apply tok_bind_gets. intros s0 Hs0. destruct (nth_error (s_dblocks s0) i) as [d|] eqn:En.
-  2:{ apply tok_ret. split; [intros t Ht; discriminate|exact Hrd]. }
-  assert (Hd : dok d).
-  { apply nth_error_In in En. pose proof (so_dblocks s0 Hs0) as H. rewrite Forall_forall in H. auto. }
-  destruct (_ && _); [apply IH; exact Hrd|].
-  destruct rd as [|cur rest]; [apply tok_raise|]. inversion Hrd as [|? ? Hcur Hrest]; subst.
-  destruct (re_search (d_openRe d) cur) as [m|] eqn:E; [|apply IH; exact Hrd].
-  pose proof (re_search_groups (fun x => 2 < x) _ _ _ E Hcur) as G.
-  assert (Body : tok lbres (r <- dblock_body fuel doc i d m rest ;; ret (Some (fst r), snd r))).
-  { eapply tok_bind; [apply dblock_body_ok; auto|]. intros [out rd'] [H1 H2]. apply tok_ret. split; [|exact H2].
-    intros t Ht. inversion Ht; subst. exact H1. }
-  destruct (grp0 m) as [|c0 g0]; destruct (str_eqb (d_name d) _); try apply tok_raise.
-  - destruct (negb (db_verify d m)); [apply IH; exact Hrd|exact Body].
-  - destruct (c0 =? 92). { apply IH. constructor; [apply allc_tl; exact Hcur|exact Hrest]. }
-    destruct (negb (db_verify d m)); [apply IH; exact Hrd|exact Body].
+  intros Hmb Hk. induction fl as [|f fl IH]; intros cnt last i p rest c Hne; [congruence|].
+  cbn [loop]. replace (cnt <? 0) with false by (symmetry; apply N.ltb_ge; lia).
+  assert (Stop : exists j c', k i p rest c = Some (j, c') /\ i <= j).
+  { destruct (Hk i p rest c) as (c' & ->). exists i, c'. split; [reflexivity|lia]. }
+  destruct (more_ok None cnt && negb (same_pos last i)); [|destruct Stop as (j & c' & -> & Hj); eauto].
+  rewrite Hmb. destruct rest as [|x t]; [destruct Stop as (j & c' & -> & Hj); eauto|].
+  destruct (negb (x =? 10)); [|destruct Stop as (j & c' & -> & Hj); eauto].
+  destruct fl as [|f2 fl2].
+  - cbn [loop]. destruct Stop as (j & c' & -> & Hj). eauto.
+  - destruct (IH (cnt + 1) (Some i) (i + 1) (Some x) t c) as (j & c' & -> & Hj); [discriminate|]. exists j, c'. split; [reflexivity|lia].
 Qed.
 
-Lemma dblocks_render_ok rd allowed : rdok rd -> tok lbres (dblocks_render fuel doc rd allowed).
-Proof. intros H. unfold dblocks_render. apply tok_bind_gets. intros s0 _. apply dblock_loop_ok. exact H. Qed.
+Lemma any_loop_first (mb : matcher) (k : cont) :
+  (forall K i p rest c, mb K i p rest c = match rest with [] => None | x :: t => if negb (x =? 10) then K (i + 1) (Some x) t c else None end) ->
+  (forall j p r c, exists c', k j p r c = Some (j, c')) ->
+  forall f fl cnt i p x t c, x <> 10 -> fl <> [] ->
+  exists j c', loop mb k true 0 None (f :: fl) cnt None i p (x :: t) c = Some (j, c') /\ i + 1 <= j.
+Proof.
+  intros Hmb Hk f fl cnt i p x t c Hx Hfl. cbn [loop]. replace (cnt <? 0) with false by (symmetry; apply N.ltb_ge; lia).
+  cbn [more_ok same_pos andb negb]. rewrite Hmb. replace (x =? 10) with false by (symmetry; apply N.eqb_neq; exact Hx). cbn [negb].
+  destruct (any_loop_progress mb k Hmb Hk fl (cnt + 1) (Some i) (i + 1) (Some x) t c) as (j & c' & E & Hj); [exact Hfl|].
+  exists j, c'. split; [|exact Hj].
+  exact (@eq_ind_r _ (Some (j, c')) (fun o => match o with Some x0 => Some x0 | None => k i p (x :: t) c end = Some (j, c')) eq_refl _ E).
+Qed.
+
+Lemma para_nonempty x t m : x <> 10 -> re_search para_re (x :: t) = Some m -> grp0 m <> [].
+Proof.
+  intros Hx H. unfold re_search in H. cbn [search_from] in H.
+  assert (E : exists e c, exec (re_ast para_re) kfinal 0 None (x :: t) [] = Some (e, c) /\ 1 <= e).
+  { change (exec (re_ast para_re) kfinal 0 None (x :: t) []) with
+      (loop (exec (RAny false)) (fun j p' r' c' => kfinal j p' r' ((1%nat, {| c_s := 0; c_e := j; c_txt := x :: t |}) :: c'))
+            true 0 None (0 :: 0 :: x :: t) 0 None 0 None (x :: t) []).
+    set (K := fun j p' r' c' => kfinal j p' r' ((1%nat, {| c_s := 0; c_e := j; c_txt := x :: t |}) :: c')).
+    assert (Hmb : forall K0 i p rest c, exec (RAny false) K0 i p rest c =
+              match rest with [] => None | x0 :: t0 => if negb (x0 =? 10) then K0 (i + 1) (Some x0) t0 c else None end)
+      by (intros K0 i p rest c; destruct rest; reflexivity).
+    assert (HK : forall j p r c, exists c', K j p r c = Some (j, c')) by (intros j p r c; eexists; reflexivity).
+    assert (Hfl : 0 :: x :: t <> []) by discriminate.
+    destruct (any_loop_first (exec (RAny false)) K Hmb HK 0 (0 :: x :: t) 0 0 None x t [] Hx Hfl) as (j & c' & E & Hj).
+    exists j, c'. split; [exact E|lia]. }
+  destruct E as (e & c & E & He). unfold match_at in H. rewrite E in H. cbn [option_map mk_mres] in H. inversion H; subst.
+  unfold grp0, grp_s, grp. cbn [m_groups nth]. rewrite N.sub_0_r. cbn [takeN].
+  destruct (e =? 0) eqn:E0; [apply N.eqb_eq in E0; lia|discriminate].
+Qed.
+
+Definition dbl_post (rd : reader) (r : option str * reader) : Prop :=
+  orf (fst r) /\ rdok (snd r) /\ (fst r = None -> rdne (snd r)).
+
+Lemma dblock_loop_ok allowed : forall k i rd, rdok rd -> rdne rd -> tok (dbl_post rd) (dblock_loop fuel doc k i rd allowed).
+Proof.
+  induction k as [|k IH]; intros i rd Hrd Hne; cbn [dblock_loop].
+  { apply tok_ret. split; [intros t Ht; discriminate|]. split; [exact Hrd|auto]. }
+  apply tok_bind_gets. intros s0 Hs0. destruct (nth_error (s_dblocks s0) i) as [d|] eqn:En.
+  2:{ apply tok_ret. split; [intros t Ht; discriminate|]. split; [exact Hrd|auto]. }
+  assert (Hd : dok d).
+  { apply nth_error_In in En. pose proof (so_dblocks s0 Hs0) as H. rewrite Forall_forall in H. auto. }
+  destruct (_ && _); [apply IH; assumption|].
+  destruct rd as [|cur rest]; [destruct Hne|]. inversion Hrd as [|? ? Hcur0 Hrest]; subst. cbn in Hne.
+  pose proof (lfree_rfree _ Hcur0) as Hcur.
+  destruct (re_search (d_openRe d) cur) as [m|] eqn:E; [|apply IH; assumption].
+  pose proof (re_search_groups (fun x => 2 < x) _ _ _ E Hcur) as G.
+  assert (Body : tok (dbl_post (cur :: rest)) (r <- dblock_body fuel doc i d m rest ;; ret (Some (fst r), snd r))).
+  { eapply tok_bind; [apply dblock_body_ok; auto|]. intros [out rd'] [H1 H2]. apply tok_ret. split; [|split; [exact H2|intros Hx; discriminate]].
+    intros t Ht. inversion Ht; subst. exact H1. }
+  destruct Hd as (_ & _ & _ & [[Hp Hre]|(Hp & Hn & Hbs)]); rewrite Hp.
+  - (* the paragraph *)
+    rewrite Hre in E. destruct cur as [|x t]; [congruence|]. assert (Hx : x <> 10) by (apply (Hcur0 x); left; reflexivity).
+    pose proof (para_nonempty x t m Hx E) as Hm0. destruct (grp0 m) as [|c0 g0]; [congruence|].
+    destruct (negb (db_verify _ m)); [apply IH; assumption|exact Body].
+  - pose proof (match_nonempty _ _ _ (re_search_spec _ _ _ E) Hn) as Hm0.
+    destruct (grp0 m) as [|c0 g0] eqn:E0; [congruence|].
+    destruct (c0 =? 92) eqn:Ec.
+    { apply N.eqb_eq in Ec. subst c0. pose proof (escape_tl _ _ _ _ E E0 Hbs) as Htl.
+      eapply tok_weaken; [|apply IH; [constructor; [apply allc_tl; exact Hcur0|exact Hrest]|exact Htl]].
+      intros r (R1 & R2 & R3). split; [exact R1|]. split; [exact R2|exact R3]. }
+    destruct (negb (db_verify d m)); [apply IH; assumption|exact Body].
+Qed.
+
+Lemma dblocks_render_ok rd allowed : rdok rd -> rdne rd -> tok (dbl_post rd) (dblocks_render fuel doc rd allowed).
+Proof. intros H Hne. unfold dblocks_render. apply tok_bind_gets. intros s0 _. apply dblock_loop_ok; assumption. Qed.
 End WithDoc.
 End DBlocks.
 
@@ -897,64 +945,103 @@ Ltac rf := repeat first
   | apply rfree_lower | apply rfree_escape | apply rfree_str_of_N | apply allc_takeN | apply allc_dropN
   | rf_lit ].
 
-Definition lidok (d : listdef) : Prop :=
+Definition lidok_str (d : listdef) : Prop :=
   rfree (li_listOpen d) /\ rfree (li_listClose d) /\ rfree (li_itemOpen d) /\ rfree (li_itemClose d) /\
   rfree (li_termOpen d) /\ rfree (li_termClose d).
+
+(* the item pattern cannot match the empty string; its last group (the item text) takes part in every match, and so does
+   group 1 (the term) of the definition-list patterns *)
+Definition lidok_re (d : listdef) : Prop :=
+  nullable (re_ast (li_re d)) = false /\ always_grp (re_groups (li_re d)) (re_ast (li_re d)) = true /\
+  (0 < re_groups (li_re d))%nat /\ (nonempty (li_termOpen d) = true -> always_grp 1 (re_ast (li_re d)) = true) /\
+  re_search (li_re d) [92] = None.
+
+Definition lidok (d : listdef) : Prop := lidok_str d /\ lidok_re d.
 
 Lemma lists_defs_ok : Forall lidok lists_defs.
 Proof.
   assert (H : forallb (fun d => rfreeb (li_listOpen d) && rfreeb (li_listClose d) && rfreeb (li_itemOpen d) &&
                                 rfreeb (li_itemClose d) && rfreeb (li_termOpen d) && rfreeb (li_termClose d)) lists_defs = true)
     by (vm_compute; reflexivity).
-  rewrite forallb_forall in H. rewrite Forall_forall. intros d Hd. apply H in Hd.
-  repeat (apply andb_prop in Hd as [Hd ?]). unfold lidok. repeat split; apply rfreeb_spec; assumption.
+  assert (H2 : forallb (fun d => negb (nullable (re_ast (li_re d))) && always_grp (re_groups (li_re d)) (re_ast (li_re d)) &&
+                                 Nat.ltb 0 (re_groups (li_re d)) && (negb (nonempty (li_termOpen d)) || always_grp 1 (re_ast (li_re d))) &&
+                                 match re_search (li_re d) [92] with None => true | Some _ => false end) lists_defs = true)
+    by (vm_compute; reflexivity).
+  rewrite forallb_forall in H, H2. rewrite Forall_forall. intros d Hd. pose proof (H2 d Hd) as Hr. apply H in Hd.
+  split.
+  - repeat (apply andb_prop in Hd as [Hd ?]). unfold lidok_str. repeat split; apply rfreeb_spec; assumption.
+  - apply andb_prop in Hr as [Hr R5]. apply andb_prop in Hr as [Hr R4]. apply andb_prop in Hr as [Hr R3]. apply andb_prop in Hr as [R1 R2].
+    split; [apply negb_true_iff; exact R1|]. split; [exact R2|]. split; [apply PeanoNat.Nat.ltb_lt; exact R3|].
+    split; [intros Ht; rewrite Ht in R4; exact R4|]. destruct (re_search (li_re d) [92]); [discriminate|reflexivity].
 Qed.
 
 Definition item_ok (it : item) : Prop :=
-  lidok (it_def it) /\ (forall k, rfree (grp_s (it_m it) k)) /\ rfree (it_id it).
+  lidok (it_def it) /\ (forall k, rfree (grp_s (it_m it) k)) /\ rfree (it_id it) /\
+  (exists f, item_text it = Some f) /\ (nonempty (li_termOpen (it_def it)) = true -> exists g, grp (it_m it) 1 = Some g).
 Definition oitem (o : option item) : Prop := forall it, o = Some it -> item_ok it.
 
-Lemma matchItem_loop_ok : forall defs rd r, Forall lidok defs -> rdok rd -> matchItem_loop defs rd = Ok r ->
-  oitem (fst r) /\ rdok (snd r).
+Definition mires (rd : reader) (r : option item * reader) : Prop :=
+  oitem (fst r) /\ rdok (snd r) /\ (fst r = None -> rdne rd -> rdne (snd r)).
+
+Lemma matchItem_loop_ok : forall defs rd r, Forall lidok defs -> rdok rd -> matchItem_loop defs rd = Ok r -> mires rd r.
 Proof.
   induction defs as [|d ds IH]; intros rd r Hd Hrd H; cbn [matchItem_loop] in H.
-  { inversion H; subst. split; [intros it Hi; discriminate|exact Hrd]. }
+  { inversion H; subst. split; [intros it Hi; discriminate|]. split; [exact Hrd|auto]. }
   inversion Hd as [|? ? Hd1 Hds]; subst.
-  destruct rd as [|cur rest]. { inversion H; subst. split; [intros it Hi; discriminate|exact Hrd]. }
-  inversion Hrd as [|? ? Hcur Hrest]; subst.
+  destruct rd as [|cur rest]. { inversion H; subst. split; [intros it Hi; discriminate|]. split; [exact Hrd|auto]. }
+  inversion Hrd as [|? ? Hcur0 Hrest]; subst. pose proof (lfree_rfree _ Hcur0) as Hcur.
   destruct (re_search (li_re d) cur) as [m|] eqn:E; [|apply (IH (cur :: rest) r Hds Hrd H)].
   pose proof (re_search_groups (fun x => 2 < x) _ _ _ E Hcur) as G.
-  destruct (grp0 m) as [|c0 g0]; [discriminate|]. destruct (c0 =? 92).
-  { inversion H; subst. split; [intros it Hi; discriminate|]. constructor; [apply allc_tl; exact Hcur|exact Hrest]. }
-  destruct (grp m (re_groups (li_re d) - 1)) as [id|] eqn:Eid; inversion H; subst; (split; [|exact Hrd]);
-    intros it Hi; inversion Hi; subst; (split; [exact Hd1|split; [exact G|]]); cbn.
+  pose proof (re_search_spec _ _ _ E) as Sp. destruct Hd1 as [Hstr (Rn & Rg & Rk & Rt & Rb)].
+  assert (Htxt : exists f, grp m (re_groups (li_re d)) = Some f).
+  { destruct (re_groups (li_re d)) as [|k] eqn:Ek; [lia|]. eapply match_spec_grp_some; eauto. rewrite Ek. lia. }
+  assert (Hterm : nonempty (li_termOpen d) = true -> exists g, grp m 1 = Some g).
+  { intros Ht. eapply (match_spec_grp_some _ _ _ O); eauto. }
+  destruct (grp0 m) as [|c0 g0] eqn:E0; [discriminate|]. destruct (c0 =? 92) eqn:Ec.
+  { apply N.eqb_eq in Ec. subst c0. pose proof (escape_tl _ _ _ _ E E0 Rb) as Htl.
+    inversion H; subst. split; [intros it Hi; discriminate|]. split; [constructor; [apply allc_tl; exact Hcur0|exact Hrest]|].
+    intros _ _. exact Htl. }
+  destruct (grp m (re_groups (li_re d) - 1)) as [id|] eqn:Eid; inversion H; subst;
+    (split; [|split; [exact Hrd|intros Hx; discriminate]]);
+    intros it Hi; inversion Hi; subst; (split; [split; [exact Hstr|repeat split; assumption]|split; [exact G|]]); cbn;
+    (split; [|split; [exact Htxt|exact Hterm]]).
   - eapply (grp_orf m _ G). exact Eid.
   - apply allc_nil.
 Qed.
 
-Lemma matchItem_ok rd : rdok rd -> tok (fun r => oitem (fst r) /\ rdok (snd r)) (matchItem rd).
+Lemma matchItem_loop_noraise : forall defs rd e, Forall lidok defs -> matchItem_loop defs rd <> Raise e.
 Proof.
-  intros Hrd. unfold matchItem. destruct (matchItem_loop lists_defs rd) as [r|e|] eqn:E; [|apply tok_raise|apply tok_fuel].
+  induction defs as [|d ds IH]; intros rd e Hd; cbn [matchItem_loop]; [discriminate|]. inversion Hd as [|? ? Hd1 Hds]; subst.
+  destruct rd as [|cur rest]; [discriminate|]. destruct (re_search (li_re d) cur) as [m|] eqn:E; [|apply IH; exact Hds].
+  apply re_search_spec in E. destruct Hd1 as [_ (Rn & _)]. pose proof (match_nonempty _ _ _ E Rn) as Hne.
+  destruct (grp0 m) as [|c0 g0]; [congruence|]. destruct (c0 =? 92); [discriminate|]. destruct (grp m _); discriminate.
+Qed.
+
+Lemma matchItem_ok rd : rdok rd -> tok (mires rd) (matchItem rd).
+Proof.
+  intros Hrd. unfold matchItem. destruct (matchItem_loop lists_defs rd) as [r|e|] eqn:E; [| |apply tok_fuel].
+  2:{ exfalso. eapply matchItem_loop_noraise; [apply lists_defs_ok|exact E]. }
   apply tok_ret. eapply matchItem_loop_ok; eauto using lists_defs_ok.
 Qed.
 
-Definition cbres (r : Z * str * reader) : Prop := rfree (snd (fst r)) /\ rdok (snd r).
+Definition cbres (r : Z * str * reader) : Prop := rfree (snd (fst r)) /\ rdok (snd r) /\ (fst (fst r) <> (-1)%Z -> rdne (snd r)).
 
-Lemma consumeBlockAttributes_ok : forall n rd blanks acc, rdok rd -> rfree acc ->
+Lemma consumeBlockAttributes_ok : forall n rd blanks acc, rdok rd -> rfree acc -> (0 <= blanks)%Z ->
   tok cbres (consumeBlockAttributes fuel n rd blanks acc).
 Proof.
-  induction n as [|n IH]; intros rd blanks acc Hrd Hacc; cbn [consumeBlockAttributes]; [apply tok_fuel|].
-  destruct rd as [|l rd0]; [apply tok_ret; split; [exact Hacc|exact Hrd]|].
-  eapply tok_bind; [apply lineblocks_render_ok; exact Hrd|]. intros [o rd'] [Ho Hrd']. cbn [fst snd] in *.
+  induction n as [|n IH]; intros rd blanks acc Hrd Hacc Hb; cbn [consumeBlockAttributes]; [apply tok_fuel|].
+  destruct rd as [|l rd0]; [apply tok_ret; split; [exact Hacc|split; [exact Hrd|intros Hx; cbn in Hx; congruence]]|].
+  eapply tok_bind; [apply lineblocks_render_ok; [exact Hrd|discriminate]|]. intros [o rd'] (Ho & Hrd' & Hnone). cbn [fst snd] in *.
   destruct o as [out|].
-  - apply IH; [exact Hrd'|]. rf. apply Ho. reflexivity.
-  - destruct rd' as [|cur rest]; [apply tok_raise|]. destruct (nonempty cur); [apply tok_ret; split; assumption|].
-    apply IH; [inversion Hrd'; assumption|exact Hacc].
+  - apply IH; [exact Hrd'| |exact Hb]. rf. apply Ho. reflexivity.
+  - destruct (Hnone eq_refl) as [Hne _]. destruct rd' as [|cur rest]; [congruence|]. destruct (nonempty cur) eqn:En.
+    + apply tok_ret. split; [exact Hacc|]. split; [exact Hrd'|]. intros _. cbn. intros ->. discriminate.
+    + apply IH; [inversion Hrd'; assumption|exact Hacc|lia].
 Qed.
 
 Lemma pop_listid_ok : tok (fun _ => True) pop_listid.
 Proof.
-  unfold pop_listid. apply tok_bind_gets. intros s0 _. destruct (frev (s_listids s0)) as [|x0 r0]; [apply tok_raise|].
+  unfold pop_listid. apply tok_bind_gets. intros s0 _. destruct (frev (s_listids s0)) as [|x0 r0]; [apply tok_raise; bx|].
   apply tok_modify. intros sx Hsx. apply Sok_listids. exact Hsx.
 Qed.
 
@@ -980,10 +1067,10 @@ Proof.
   { repeat split; intro; intros; apply tok_fuel. }
   split; [|split; [|split]].
   - (* renderList *)
-    intros it rd Hit Hrd. cbn [renderList]. destruct Hit as (Hd & G & Hid). pose proof Hd as (H1 & H2 & H3 & H4 & H5 & H6).
+    intros it rd Hit Hrd. cbn [renderList]. pose proof Hit as Hit0. destruct Hit as (Hd & G & Hid & Htxt & Hterm). pose proof (proj1 Hd) as (H1 & H2 & H3 & H4 & H5 & H6).
     apply tok_seq; [apply tok_modify; intros s Hs; apply Sok_listids; exact Hs|].
     eapply tok_bind; [apply injectHtmlAttributes_ok; exact H1|]. intros open Hopen.
-    eapply tok_bind; [apply IHs; [repeat split; assumption|exact Hrd]|]. intros [[body nx] rd'] (Hb & Hn & Hr). cbn [fst snd] in *.
+    eapply tok_bind; [apply IHs; [exact Hit0|exact Hrd]|]. intros [[body nx] rd'] (Hb & Hn & Hr). cbn [fst snd] in *.
     apply tok_seq; [apply pop_listid_ok|]. apply tok_ret, lres_intro; auto. rf.
   - (* renderItems *)
     intros it rd Hit Hrd. cbn [renderItems].
@@ -993,73 +1080,76 @@ Proof.
     eapply tok_bind; [apply IHs; [apply Hn; reflexivity|exact Hr]|]. intros [[out2 nn] rd2] (Hb2 & Hn2 & Hr2). cbn [fst snd] in *.
     apply tok_ret, lres_intro; auto. rf.
   - (* renderListItem *)
-    intros it rd Hit Hrd. cbn [renderListItem]. destruct Hit as (Hd & G & Hid). pose proof Hd as (H1 & H2 & H3 & H4 & H5 & H6).
+    intros it rd Hit Hrd. cbn [renderListItem]. destruct Hit as (Hd & G & Hid & Htxt & Hterm). pose proof (proj1 Hd) as (H1 & H2 & H3 & H4 & H5 & H6).
     eapply tok_bind with (P := rfree).
-    { destruct (nonempty (li_termOpen (it_def it))); [|apply tok_ret, allc_nil].
+    { destruct (nonempty (li_termOpen (it_def it))) eqn:Eterm; [|apply tok_ret, allc_nil].
       eapply tok_bind; [apply injectHtmlAttributes_ok; exact H5|]. intros t Ht.
       apply tok_seq; [apply tok_modify; intros s Hs; apply Sok_id; [apply allc_nil|exact Hs]|].
       eapply tok_bind with (P := rfree).
-      { apply tok_lift. intros e He. destruct (grp (it_m it) 1) as [g|] eqn:Eg; [|cbn; discriminate].
-        apply replaceInline_top_good; [exact He|]. apply (grp_orf _ 1 G). exact Eg. }
+      { destruct (Hterm eq_refl) as (g & Eg). rewrite Eg.
+        apply tok_replaceInline. apply (grp_orf _ 1 G). exact Eg. }
       intros text Htext. apply tok_ret. rf. }
     intros head Hhead. eapply tok_bind; [apply injectHtmlAttributes_ok; exact H3|]. intros iopen Hiopen.
-    destruct (item_text it) as [first|] eqn:Ef; [|apply tok_raise].
+    destruct Htxt as (first & Ef). rewrite Ef.
     assert (Hfirst : rfree first) by (apply (grp_orf _ _ G) in Ef; exact Ef).
     eapply tok_bind; [apply IHo; [apply rdok_tl; exact Hrd|rf|apply allc_nil]|].
     intros [[[nx rd'] il] at'] (Hn & Hr & Hil & Hat).
     eapply tok_bind with (P := rfree).
-    { apply tok_lift. intros e He. apply replaceInline_top_good; [exact He|rf]. }
+    { apply tok_replaceInline. rf. }
     intros text Htext. apply tok_ret, lres_intro; auto. rf.
   - (* itemLoop *)
     intros rd il at' dn Hrd Hil Hat. cbn [itemLoop].
-    eapply tok_bind; [apply consumeBlockAttributes_ok; [exact Hrd|apply allc_nil]|].
-    intros [[blanks out] rd1] [Hout Hrd1]. cbn [fst snd] in *.
+    eapply tok_bind; [apply consumeBlockAttributes_ok; [exact Hrd|apply allc_nil|lia]|].
+    intros [[blanks out] rd1] (Hout & Hrd1 & Hne1). cbn [fst snd] in *.
     assert (Hat2 : rfree (at' ++ out)) by rf.
-    destruct (_ || _). { apply tok_ret, ilres_intro; auto using oitem_none. }
-    eapply tok_bind; [apply matchItem_ok; exact Hrd1|]. intros [nx rd2] [Hn Hrd2]. cbn [fst snd] in *.
+    destruct ((2 <=? blanks)%Z || (blanks =? -1)%Z) eqn:Eb. { apply tok_ret, ilres_intro; auto using oitem_none. }
+    apply orb_false_iff in Eb as [_ Eb]. apply Z.eqb_neq in Eb. specialize (Hne1 Eb).
+    eapply tok_bind; [apply matchItem_ok; exact Hrd1|]. intros [nx rd2] (Hn & Hrd2 & Hne2). cbn [fst snd] in *.
     destruct nx as [nx|].
     + apply tok_bind_gets. intros s0 _. destruct (mem _ _). { apply tok_ret, ilres_intro; auto. }
       eapply tok_bind; [apply IHl; [apply Hn; reflexivity|exact Hrd2]|]. intros [[out2 nn] rd3] (Ho2 & Hn2 & Hr3). cbn [fst snd] in *.
       apply tok_ret, ilres_intro; auto. rf.
-    + destruct dn. { apply tok_ret, ilres_intro; auto. }
+    + specialize (Hne2 eq_refl Hne1). destruct dn. { apply tok_ret, ilres_intro; auto. }
       destruct (blanks =? 0)%Z.
       { apply tok_bind_gets. intros s0 _.
         apply tok_seq; [apply tok_modify; intros s Hs; apply Sok_listids; exact Hs|].
-        eapply tok_bind; [apply dblocks_render_ok; [exact Hdoc|exact Hrd2]|]. intros [o rd3] [Ho Hrd3]. cbn [fst snd] in *.
+        eapply tok_bind; [apply dblocks_render_ok; [exact Hdoc|exact Hrd2|exact Hne2]|]. intros [o rd3] (Ho & Hrd3 & Hne3). cbn [fst snd] in *.
         apply tok_seq; [apply tok_modify; intros s Hs; apply Sok_listids; exact Hs|].
         destruct o as [out3|].
         - apply IHo; [exact Hrd3|exact Hil|]. rf. apply Ho. reflexivity.
-        - destruct rd3 as [|cur rest]; [apply tok_raise|]. inversion Hrd3; subst. apply IHo; [assumption| |exact Hat2]. rf. }
+        - specialize (Hne3 eq_refl). destruct rd3 as [|cur rest]; [destruct Hne3|]. inversion Hrd3 as [|? ? Hc0 Hr0]; subst.
+          pose proof (lfree_rfree _ Hc0) as Hc. apply IHo; [assumption| |exact Hat2]. rf. }
       destruct (blanks =? 1)%Z; [|apply tok_fuel].
-      eapply tok_bind; [apply dblocks_render_ok; [exact Hdoc|exact Hrd2]|]. intros [o rd3] [Ho Hrd3]. cbn [fst snd] in *.
+      eapply tok_bind; [apply dblocks_render_ok; [exact Hdoc|exact Hrd2|exact Hne2]|]. intros [o rd3] (Ho & Hrd3 & Hne3). cbn [fst snd] in *.
       destruct o as [out3|].
       * apply IHo; [exact Hrd3|exact Hil|]. rf. apply Ho. reflexivity.
       * apply tok_ret, ilres_intro; auto.
 Qed.
 
-Lemma lists_render_ok n rd : rdok rd -> tok lbres (lists_render fuel doc n rd).
+Lemma lists_render_ok n rd : rdok rd -> tok (fun r => orf (fst r) /\ rdok (snd r) /\ (fst r = None -> rdne rd -> rdne (snd r))) (lists_render fuel doc n rd).
 Proof.
-  intros Hrd. unfold lists_render. eapply tok_bind; [apply matchItem_ok; exact Hrd|]. intros [o rd'] [Ho Hrd']. cbn [fst snd] in *.
-  destruct o as [it|]; [|apply tok_ret; split; [intros t Ht; discriminate|exact Hrd']].
+  intros Hrd. unfold lists_render. eapply tok_bind; [apply matchItem_ok; exact Hrd|]. intros [o rd'] (Ho & Hrd' & Hne'). cbn [fst snd] in *.
+  destruct o as [it|]; [|apply tok_ret; split; [intros t Ht; discriminate|split; [exact Hrd'|intros _; apply Hne'; reflexivity]]].
   apply tok_seq; [apply tok_modify; intros s Hs; apply Sok_listids; exact Hs|].
   eapply tok_bind; [apply (proj1 (lists_mutual n)); [apply Ho; reflexivity|exact Hrd']|].
   intros [[out nx] rd2] (Hout & _ & Hrd2). cbn [fst snd] in *.
   apply tok_bind_gets. intros s0 _.
   apply tok_seq; [destruct (s_listids s0); [apply tok_ret; exact Logic.I|apply tok_log_msg]|].
-  apply tok_ret. split; [intros t Ht; inversion Ht; subst; exact Hout|exact Hrd2].
+  apply tok_ret. split; [intros t Ht; inversion Ht; subst; exact Hout|split; [exact Hrd2|intros Hx; discriminate]].
 Qed.
 
 Lemma doc_loop_ok : forall n rd, rdok rd -> tok rfree (doc_loop fuel doc n rd).
 Proof.
   induction n as [|n IH]; intros rd Hrd; cbn [doc_loop]; [apply tok_fuel|].
-  pose proof (rdok_skip rd Hrd) as Hs. destruct (skipBlankLines rd) as [|l rd0] eqn:E; [apply tok_ret, allc_nil|].
+  pose proof (rdok_skip rd Hrd) as Hs. pose proof (rdne_skip rd) as Hne.
+  destruct (skipBlankLines rd) as [|l rd0] eqn:E; [apply tok_ret, allc_nil|]. specialize (Hne ltac:(discriminate)).
   assert (Cont : forall out rd', rfree out -> rdok rd' -> tok rfree (rest <- doc_loop fuel doc n rd' ;; ret (out ++ rest))).
   { intros out rd' Ho Hr. eapply tok_bind; [apply IH; exact Hr|]. intros rest Hrest. apply tok_ret. rf. }
-  eapply tok_bind; [apply lineblocks_render_ok; exact Hs|]. intros [o rd1] [Ho Hrd1]. cbn [fst snd] in *.
-  destruct o as [out|]; [apply Cont; [apply Ho; reflexivity|exact Hrd1]|].
-  eapply tok_bind; [apply lists_render_ok; exact Hrd1|]. intros [o rd2] [Ho2 Hrd2]. cbn [fst snd] in *.
-  destruct o as [out|]; [apply Cont; [apply Ho2; reflexivity|exact Hrd2]|].
-  eapply tok_bind; [apply dblocks_render_ok; [exact Hdoc|exact Hrd2]|]. intros [o rd3] [Ho3 Hrd3]. cbn [fst snd] in *.
+  eapply tok_bind; [apply lineblocks_render_ok; [exact Hs|discriminate]|]. intros [o rd1] (Ho & Hrd1 & Hn1). cbn [fst snd] in *.
+  destruct o as [out|]; [apply Cont; [apply Ho; reflexivity|exact Hrd1]|]. destruct (Hn1 eq_refl) as [_ Hn1']. specialize (Hn1' Hne).
+  eapply tok_bind; [apply lists_render_ok; exact Hrd1|]. intros [o rd2] (Ho2 & Hrd2 & Hn2). cbn [fst snd] in *.
+  destruct o as [out|]; [apply Cont; [apply Ho2; reflexivity|exact Hrd2]|]. specialize (Hn2 eq_refl Hn1').
+  eapply tok_bind; [apply dblocks_render_ok; [exact Hdoc|exact Hrd2|exact Hn2]|]. intros [o rd3] (Ho3 & Hrd3 & _). cbn [fst snd] in *.
   destruct o as [out|]; [apply Cont; [apply Ho3; reflexivity|exact Hrd3]|apply tok_fuel].
 Qed.
 End Lists.
@@ -1081,8 +1171,10 @@ Qed.
 (* ---- every reachable session ---- *)
 Lemma Sok_S0 : Sok S0.
 Proof.
-  constructor; cbn; try apply allc_nil; [|constructor].
-  constructor; [constructor; cbn; [apply allc_nil|constructor|constructor]|constructor].
+  constructor; cbn; try apply allc_nil.
+  - constructor; [constructor; cbn; [apply allc_nil|constructor|constructor]|constructor].
+  - constructor.
+  - constructor.
 Qed.
 
 Definition out_ok (o : outcome) : Prop := match o with OOk html => rfree html | _ => True end.
@@ -1112,4 +1204,11 @@ Proof. intros n h H. apply io_env, so_env. apply (run_ok n h S0 Sok_S0 H). Qed.
 
 Lemma render_reserved_free : forall n src o s, opts_ok o -> Sok s ->
   match api_render n src o s with Ok (html, s') => rfree html /\ Sok s' | _ => True end.
-Proof. intros n src o s Ho Hs. exact (api_render_ok n src o Ho s Hs). Qed.
+Proof. intros n src o s Ho Hs. pose proof (api_render_ok n src o Ho s Hs) as H. destruct (api_render n src o s) as [[h s']|e|]; auto. Qed.
+
+(* the exceptions that can escape the API *)
+Theorem api_render_raises_only : forall n src o s e, opts_ok o -> Sok s -> api_render n src o s = Raise e -> blk_exn e.
+Proof. intros n src o s e Ho Hs H. pose proof (api_render_ok n src o Ho s Hs) as R. rewrite H in R. exact R. Qed.
+
+Lemma reachable_Sok : forall n h, Forall (fun so => opts_ok (snd so)) h -> Sok (snd (run n S0 h)).
+Proof. intros n h H. apply (run_ok n h S0 Sok_S0 H). Qed.
